@@ -56,6 +56,8 @@ T0 == BuildTree(1, [live |-> [n \in Notes |-> "none"], notified |-> [n \in Notes
     lpar = T0.lpar,                           \* logical parent: creation parent, re-pointed when a note in between is freed
     wfor = [t \in Threads |-> 0],             \* ghost: the note whose children loop t's notifier has finished (it now waits for the list to drain)
     freeing = [n \in Notes |-> FALSE],        \* ghost: nsync_note_free (n) is in progress (n is no longer anybody else's business)
+    badret = FALSE,                           \* nsync_sem_wait_with_cancel_ returned a value its contract does not allow (C05)
+    vcount = [t \in Threads |-> 0],           \* wake-ups given to t's semaphore (by "semv" or by a notifier) not yet reported by a 0 return
     uaf = FALSE,                              \* some step touched a note after nsync_note_free of it had returned
     taint4 = FALSE,                           \* known finding 6.4: a child was adopted by a note whose notifier had finished its children loop
     taint5 = FALSE;                           \* known finding 6.5: a notifier queued for a parent from which its note was unlinked meanwhile
@@ -64,6 +66,11 @@ T0 == BuildTree(1, [live |-> [n \in Notes |-> "none"], notified |-> [n \in Notes
     CurOp(t) == Prog[t][ip[t]]
     NTime(n) == IF notified[n] # 0 THEN ZERO ELSE exp[n]          \* NOTIFIED_TIME
     Touch(x) == x # 0 /\ live[x] = "freed"
+    RECURSIVE LAnc(_, _)
+    LAnc(n, d) == IF n = 0 \/ d = 0 THEN {} ELSE {n} \cup LAnc(lpar[n], d - 1)      \* n and its logical ancestors
+    Cause(n) == \E a \in LAnc(n, NN) : called[a] \/ (dl0[a] < NONE /\ dl0[a] <= now)
+    ECANCELED == 125
+    ETIMEDOUT == 110
   }
 
   \* ------------------------------------------------------------------ note_notify_child (note.c:83-111), recursive
@@ -76,7 +83,7 @@ T0 == BuildTree(1, [live |-> [n \in Notes |-> "none"], notified |-> [n \in Notes
    nc_w_l:   if (wts[cn] = <<>>) { klist := kids[cn]; i := 1; goto nc_k_l; }
              else { w := Head(wts[cn]); wts[cn] := Tail(wts[cn]); };         \* note.c:91-92
    nc_3_st:  nww[w][cn] := 0;                                                    \* note.c:93 ATM_STORE_REL
-   nc_4_v:   sem[w] := sem[w] + 1; goto nc_w_l;                              \* note.c:94
+   nc_4_v:   sem[w] := sem[w] + 1; vcount[w] := vcount[w] + 1; goto nc_w_l;                              \* note.c:94
    nc_k_l:   if (i > Len(klist)) { wfor[self] := cn; goto nc_7_r; };
    nc_5_lk:  await lk[klist[i]] = 0; lk[klist[i]] := self;                   \* note.c:99 nsync_mu_lock (&child->note_mu)
              uaf := uaf \/ Touch(klist[i]);
@@ -130,11 +137,11 @@ T0 == BuildTree(1, [live |-> [n \in Notes |-> "none"], notified |-> [n \in Notes
   }
 
   \* ------------------------------------------------------------------ nsync_note_notify (note.c:238-244)
-  procedure nnotify(xn)
+  procedure nnotify(xn, xcl)
   {
-   nx_0_l:   called[xn] := TRUE; call ndeadline(xn);
+   nx_0_l:   called[xn] := called[xn] \/ xcl; call ndeadline(xn);      \* (ghost) only a client call counts as a cause
    nx_1_l:   if (dres[self] > ZERO) { call notify(xn); };
-   nx_2_l:   ret[self] := notified[xn]; return;
+   nx_2_l:   if (xcl) { ret[self] := notified[xn]; }; return;
   }
 
   \* ------------------------------------------------------------------ nsync_note_new (note.c:170-193)
@@ -179,6 +186,8 @@ T0 == BuildTree(1, [live |-> [n \in Notes |-> "none"], notified |-> [n \in Notes
    nf_12_l:  disc[fn] := disc[fn] - 1;
    nf_13_ul: lk[fn] := 0;                                                    \* note.c:234
              live[fn] := "freed";                                            \* note.c:235 free (n)
+             \* ghost: what caused fn's notification keeps counting as a cause for the notes it leaves behind
+             called := [x \in Notes |-> called[x] \/ (lpar[x] = fn /\ (called[fn] \/ (dl0[fn] < NONE /\ dl0[fn] <= now)))];
              lpar := [x \in Notes |-> IF lpar[x] = fn THEN lpar[fn] ELSE lpar[x]];
              ret[self] := 0;
              return;
@@ -222,6 +231,43 @@ T0 == BuildTree(1, [live |-> [n \in Notes |-> "none"], notified |-> [n \in Notes
              return;
   }
 
+  \* ------------------------------------------------------------------ nsync_sem_wait_with_cancel_ (w, sdl, scn) (sem_wait.c:31-81): what a cv / mu
+  \* waiter with a cancel note sleeps in.  scn = 0 is cancel_note == NULL.  The on-stack nsync_waiter_s nw is thread self's record for note scn.
+  procedure swc(sdl, scn)
+    variables sct = 0, sldl = 0, snear = FALSE, sso = 0;
+  {
+   sc_0_l:   if (scn = 0) { goto sc_p_pd; } else { call ndeadline(scn); };     \* sem_wait.c:38 nsync_note_notified_deadline_
+   sc_1_l:   if (dres[self] = ZERO) { sso := ECANCELED; goto sc_r_l; };       \* sem_wait.c:39-40
+   sc_2_st:  nww[self][scn] := 1;                                            \* sem_wait.c:45 ATM_STORE (&nw.waiting, 1)
+   sc_3_lk:  await lk[scn] = 0; lk[scn] := self; uaf := uaf \/ Touch(scn);    \* sem_wait.c:47
+   sc_4_ld:  sct := NTime(scn);                                              \* sem_wait.c:48 NOTIFIED_TIME
+             if (NTime(scn) > ZERO) {
+               wts[scn] := Append(wts[scn], self);                           \* sem_wait.c:52
+               sldl := Min2(NTime(scn), sdl); snear := sdl < NTime(scn);     \* sem_wait.c:54-58
+             } else { sso := ECANCELED; goto sc_9_ul; };
+   sc_5_ul:  lk[scn] := 0;                                                   \* sem_wait.c:59
+   sc_6_pd:  await sem[self] > 0 \/ (sldl < NONE /\ now >= sldl);             \* sem_wait.c:60 nsync_mu_semaphore_p_with_deadline
+             if (sem[self] > 0) { sem[self] := sem[self] - 1; sso := 0; } else { sso := ETIMEDOUT; };
+   sc_6_l:   if (sso = ETIMEDOUT /\ ~snear) { sso := ECANCELED; call nnotify(scn, FALSE); };   \* sem_wait.c:62-65 the note's own expiry
+   sc_7_lk:  await lk[scn] = 0; lk[scn] := self; uaf := uaf \/ Touch(scn);    \* sem_wait.c:66
+   sc_8_ld:  if (NTime(scn) > ZERO) { wts[scn] := Without(wts[scn], self); }; \* sem_wait.c:67-72
+   sc_9_ul:  lk[scn] := 0;                                                   \* sem_wait.c:74
+   sc_r_l:   ret[self] := sso;
+             if (scn # 0) { nww[self][scn] := 0; };                          \* the record's frame is gone
+             badret := badret \/ (sso = ECANCELED /\ ~Cause(scn)) \/ (sso = ETIMEDOUT /\ ~(sdl < NONE /\ sdl <= now)) \/ (sso = 0 /\ vcount[self] = 0);
+             if (sso = 0) { vcount[self] := vcount[self] - 1; };
+             return;
+   sc_p_pd:  await sem[self] > 0 \/ (sdl < NONE /\ now >= sdl);               \* sem_wait.c:35
+             if (sem[self] > 0) { sem[self] := sem[self] - 1; sso := 0; } else { sso := ETIMEDOUT; };
+             goto sc_r_l;
+  }
+
+  \* nsync_mu_semaphore_v on thread st's semaphore (what a cv signaller or an unlocker does for a waiter)
+  procedure semv(st)
+  {
+   sv_1_v:   sem[st] := sem[st] + 1; vcount[st] := vcount[st] + 1; ret[self] := 0; return;
+  }
+
   procedure npoll(pn)
   {
    np_0_l:   call ndeadline(pn);
@@ -231,12 +277,14 @@ T0 == BuildTree(1, [live |-> [n \in Notes |-> "none"], notified |-> [n \in Notes
   process (thr \in Threads)
   {
    c0: while (ip[self] <= Len(Prog[self])) {
-         if (CurOp(self).op = "notify") { ip[self] := ip[self] + 1; call nnotify(CurOp(self).a); }
+         if (CurOp(self).op = "notify") { ip[self] := ip[self] + 1; call nnotify(CurOp(self).a, TRUE); }
          else if (CurOp(self).op = "poll") { ip[self] := ip[self] + 1; call npoll(CurOp(self).a); }
          else if (CurOp(self).op = "new") { ip[self] := ip[self] + 1; call nnew(CurOp(self).a, CurOp(self).b, CurOp(self).dl, CurOp(self).x = 1); }
          else if (CurOp(self).op = "free") { ip[self] := ip[self] + 1; call nfree(CurOp(self).a); }
          else if (CurOp(self).op = "wait") { ip[self] := ip[self] + 1; call nwaitn(<<CurOp(self).a>>, CurOp(self).dl, TRUE); }
          else if (CurOp(self).op = "waitn") { ip[self] := ip[self] + 1; call nwaitn(CurOp(self).objs, CurOp(self).dl, FALSE); }
+         else if (CurOp(self).op = "swc") { ip[self] := ip[self] + 1; call swc(CurOp(self).dl, CurOp(self).a); }
+         else if (CurOp(self).op = "semv") { ip[self] := ip[self] + 1; call semv(CurOp(self).a); }
          else { ip[self] := ip[self] + 1; };
        };
   }
@@ -244,22 +292,28 @@ T0 == BuildTree(1, [live |-> [n \in Notes |-> "none"], notified |-> [n \in Notes
 \* BEGIN TRANSLATION
 CONSTANT defaultInitValue
 VARIABLES pc, live, notified, exp, par, kids, wts, disc, lk, nww, sem, now, 
-          ip, ret, dres, called, dl0, lpar, wfor, freeing, uaf, taint4, 
-          taint5, stack
+          ip, ret, dres, called, dl0, lpar, wfor, freeing, badret, vcount, 
+          uaf, taint4, taint5, stack
 
 (* define statement *)
 CurOp(t) == Prog[t][ip[t]]
 NTime(n) == IF notified[n] # 0 THEN ZERO ELSE exp[n]
 Touch(x) == x # 0 /\ live[x] = "freed"
+RECURSIVE LAnc(_, _)
+LAnc(n, d) == IF n = 0 \/ d = 0 THEN {} ELSE {n} \cup LAnc(lpar[n], d - 1)
+Cause(n) == \E a \in LAnc(n, NN) : called[a] \/ (dl0[a] < NONE /\ dl0[a] <= now)
+ECANCELED == 125
+ETIMEDOUT == 110
 
-VARIABLES cn, cp, i, klist, w, tn, p, dn, nt, xn, wn, wp, wdl, fail, fn, fp, 
-          fi, fk, objs, adl, single, k, rt, cnt, rdy, enq, wq, pn
+VARIABLES cn, cp, i, klist, w, tn, p, dn, nt, xn, xcl, wn, wp, wdl, fail, fn, 
+          fp, fi, fk, objs, adl, single, k, rt, cnt, rdy, enq, wq, sdl, scn, 
+          sct, sldl, snear, sso, st, pn
 
 vars == << pc, live, notified, exp, par, kids, wts, disc, lk, nww, sem, now, 
-           ip, ret, dres, called, dl0, lpar, wfor, freeing, uaf, taint4, 
-           taint5, stack, cn, cp, i, klist, w, tn, p, dn, nt, xn, wn, wp, wdl, 
-           fail, fn, fp, fi, fk, objs, adl, single, k, rt, cnt, rdy, enq, wq, 
-           pn >>
+           ip, ret, dres, called, dl0, lpar, wfor, freeing, badret, vcount, 
+           uaf, taint4, taint5, stack, cn, cp, i, klist, w, tn, p, dn, nt, xn, 
+           xcl, wn, wp, wdl, fail, fn, fp, fi, fk, objs, adl, single, k, rt, 
+           cnt, rdy, enq, wq, sdl, scn, sct, sldl, snear, sso, st, pn >>
 
 ProcSet == (Threads)
 
@@ -283,6 +337,8 @@ Init == (* Global variables *)
         /\ lpar = T0.lpar
         /\ wfor = [t \in Threads |-> 0]
         /\ freeing = [n \in Notes |-> FALSE]
+        /\ badret = FALSE
+        /\ vcount = [t \in Threads |-> 0]
         /\ uaf = FALSE
         /\ taint4 = FALSE
         /\ taint5 = FALSE
@@ -300,6 +356,7 @@ Init == (* Global variables *)
         /\ nt = [ self \in ProcSet |-> 0]
         (* Procedure nnotify *)
         /\ xn = [ self \in ProcSet |-> defaultInitValue]
+        /\ xcl = [ self \in ProcSet |-> defaultInitValue]
         (* Procedure nnew *)
         /\ wn = [ self \in ProcSet |-> defaultInitValue]
         /\ wp = [ self \in ProcSet |-> defaultInitValue]
@@ -320,6 +377,15 @@ Init == (* Global variables *)
         /\ rdy = [ self \in ProcSet |-> 0]
         /\ enq = [ self \in ProcSet |-> FALSE]
         /\ wq = [ self \in ProcSet |-> FALSE]
+        (* Procedure swc *)
+        /\ sdl = [ self \in ProcSet |-> defaultInitValue]
+        /\ scn = [ self \in ProcSet |-> defaultInitValue]
+        /\ sct = [ self \in ProcSet |-> 0]
+        /\ sldl = [ self \in ProcSet |-> 0]
+        /\ snear = [ self \in ProcSet |-> FALSE]
+        /\ sso = [ self \in ProcSet |-> 0]
+        (* Procedure semv *)
+        /\ st = [ self \in ProcSet |-> defaultInitValue]
         (* Procedure npoll *)
         /\ pn = [ self \in ProcSet |-> defaultInitValue]
         /\ stack = [self \in ProcSet |-> << >>]
@@ -339,20 +405,22 @@ nc_1_ld(self) == /\ pc[self] = "nc_1_ld"
                             /\ UNCHANGED << stack, cn, cp, i, klist, w >>
                  /\ UNCHANGED << live, notified, exp, par, kids, wts, disc, lk, 
                                  nww, sem, now, ip, ret, dres, called, dl0, 
-                                 lpar, wfor, freeing, taint4, taint5, tn, p, 
-                                 dn, nt, xn, wn, wp, wdl, fail, fn, fp, fi, fk, 
-                                 objs, adl, single, k, rt, cnt, rdy, enq, wq, 
-                                 pn >>
+                                 lpar, wfor, freeing, badret, vcount, taint4, 
+                                 taint5, tn, p, dn, nt, xn, xcl, wn, wp, wdl, 
+                                 fail, fn, fp, fi, fk, objs, adl, single, k, 
+                                 rt, cnt, rdy, enq, wq, sdl, scn, sct, sldl, 
+                                 snear, sso, st, pn >>
 
 nc_2_st(self) == /\ pc[self] = "nc_2_st"
                  /\ notified' = [notified EXCEPT ![cn[self]] = 1]
                  /\ pc' = [pc EXCEPT ![self] = "nc_w_l"]
                  /\ UNCHANGED << live, exp, par, kids, wts, disc, lk, nww, sem, 
                                  now, ip, ret, dres, called, dl0, lpar, wfor, 
-                                 freeing, uaf, taint4, taint5, stack, cn, cp, 
-                                 i, klist, w, tn, p, dn, nt, xn, wn, wp, wdl, 
-                                 fail, fn, fp, fi, fk, objs, adl, single, k, 
-                                 rt, cnt, rdy, enq, wq, pn >>
+                                 freeing, badret, vcount, uaf, taint4, taint5, 
+                                 stack, cn, cp, i, klist, w, tn, p, dn, nt, xn, 
+                                 xcl, wn, wp, wdl, fail, fn, fp, fi, fk, objs, 
+                                 adl, single, k, rt, cnt, rdy, enq, wq, sdl, 
+                                 scn, sct, sldl, snear, sso, st, pn >>
 
 nc_w_l(self) == /\ pc[self] = "nc_w_l"
                 /\ IF wts[cn[self]] = <<>>
@@ -366,30 +434,34 @@ nc_w_l(self) == /\ pc[self] = "nc_w_l"
                            /\ UNCHANGED << i, klist >>
                 /\ UNCHANGED << live, notified, exp, par, kids, disc, lk, nww, 
                                 sem, now, ip, ret, dres, called, dl0, lpar, 
-                                wfor, freeing, uaf, taint4, taint5, stack, cn, 
-                                cp, tn, p, dn, nt, xn, wn, wp, wdl, fail, fn, 
-                                fp, fi, fk, objs, adl, single, k, rt, cnt, rdy, 
-                                enq, wq, pn >>
+                                wfor, freeing, badret, vcount, uaf, taint4, 
+                                taint5, stack, cn, cp, tn, p, dn, nt, xn, xcl, 
+                                wn, wp, wdl, fail, fn, fp, fi, fk, objs, adl, 
+                                single, k, rt, cnt, rdy, enq, wq, sdl, scn, 
+                                sct, sldl, snear, sso, st, pn >>
 
 nc_3_st(self) == /\ pc[self] = "nc_3_st"
                  /\ nww' = [nww EXCEPT ![w[self]][cn[self]] = 0]
                  /\ pc' = [pc EXCEPT ![self] = "nc_4_v"]
                  /\ UNCHANGED << live, notified, exp, par, kids, wts, disc, lk, 
                                  sem, now, ip, ret, dres, called, dl0, lpar, 
-                                 wfor, freeing, uaf, taint4, taint5, stack, cn, 
-                                 cp, i, klist, w, tn, p, dn, nt, xn, wn, wp, 
-                                 wdl, fail, fn, fp, fi, fk, objs, adl, single, 
-                                 k, rt, cnt, rdy, enq, wq, pn >>
+                                 wfor, freeing, badret, vcount, uaf, taint4, 
+                                 taint5, stack, cn, cp, i, klist, w, tn, p, dn, 
+                                 nt, xn, xcl, wn, wp, wdl, fail, fn, fp, fi, 
+                                 fk, objs, adl, single, k, rt, cnt, rdy, enq, 
+                                 wq, sdl, scn, sct, sldl, snear, sso, st, pn >>
 
 nc_4_v(self) == /\ pc[self] = "nc_4_v"
                 /\ sem' = [sem EXCEPT ![w[self]] = sem[w[self]] + 1]
+                /\ vcount' = [vcount EXCEPT ![w[self]] = vcount[w[self]] + 1]
                 /\ pc' = [pc EXCEPT ![self] = "nc_w_l"]
                 /\ UNCHANGED << live, notified, exp, par, kids, wts, disc, lk, 
                                 nww, now, ip, ret, dres, called, dl0, lpar, 
-                                wfor, freeing, uaf, taint4, taint5, stack, cn, 
-                                cp, i, klist, w, tn, p, dn, nt, xn, wn, wp, 
-                                wdl, fail, fn, fp, fi, fk, objs, adl, single, 
-                                k, rt, cnt, rdy, enq, wq, pn >>
+                                wfor, freeing, badret, uaf, taint4, taint5, 
+                                stack, cn, cp, i, klist, w, tn, p, dn, nt, xn, 
+                                xcl, wn, wp, wdl, fail, fn, fp, fi, fk, objs, 
+                                adl, single, k, rt, cnt, rdy, enq, wq, sdl, 
+                                scn, sct, sldl, snear, sso, st, pn >>
 
 nc_k_l(self) == /\ pc[self] = "nc_k_l"
                 /\ IF i[self] > Len(klist[self])
@@ -399,10 +471,11 @@ nc_k_l(self) == /\ pc[self] = "nc_k_l"
                            /\ wfor' = wfor
                 /\ UNCHANGED << live, notified, exp, par, kids, wts, disc, lk, 
                                 nww, sem, now, ip, ret, dres, called, dl0, 
-                                lpar, freeing, uaf, taint4, taint5, stack, cn, 
-                                cp, i, klist, w, tn, p, dn, nt, xn, wn, wp, 
-                                wdl, fail, fn, fp, fi, fk, objs, adl, single, 
-                                k, rt, cnt, rdy, enq, wq, pn >>
+                                lpar, freeing, badret, vcount, uaf, taint4, 
+                                taint5, stack, cn, cp, i, klist, w, tn, p, dn, 
+                                nt, xn, xcl, wn, wp, wdl, fail, fn, fp, fi, fk, 
+                                objs, adl, single, k, rt, cnt, rdy, enq, wq, 
+                                sdl, scn, sct, sldl, snear, sso, st, pn >>
 
 nc_5_lk(self) == /\ pc[self] = "nc_5_lk"
                  /\ lk[klist[self][i[self]]] = 0
@@ -411,10 +484,11 @@ nc_5_lk(self) == /\ pc[self] = "nc_5_lk"
                  /\ pc' = [pc EXCEPT ![self] = "nc_5_l"]
                  /\ UNCHANGED << live, notified, exp, par, kids, wts, disc, 
                                  nww, sem, now, ip, ret, dres, called, dl0, 
-                                 lpar, wfor, freeing, taint4, taint5, stack, 
-                                 cn, cp, i, klist, w, tn, p, dn, nt, xn, wn, 
-                                 wp, wdl, fail, fn, fp, fi, fk, objs, adl, 
-                                 single, k, rt, cnt, rdy, enq, wq, pn >>
+                                 lpar, wfor, freeing, badret, vcount, taint4, 
+                                 taint5, stack, cn, cp, i, klist, w, tn, p, dn, 
+                                 nt, xn, xcl, wn, wp, wdl, fail, fn, fp, fi, 
+                                 fk, objs, adl, single, k, rt, cnt, rdy, enq, 
+                                 wq, sdl, scn, sct, sldl, snear, sso, st, pn >>
 
 nc_5_l(self) == /\ pc[self] = "nc_5_l"
                 /\ IF disc[klist[self][i[self]]] = 0
@@ -436,10 +510,11 @@ nc_5_l(self) == /\ pc[self] = "nc_5_l"
                            /\ UNCHANGED << stack, cn, cp, i, klist, w >>
                 /\ UNCHANGED << live, notified, exp, par, kids, wts, disc, lk, 
                                 nww, sem, now, ip, ret, dres, called, dl0, 
-                                lpar, wfor, freeing, uaf, taint4, taint5, tn, 
-                                p, dn, nt, xn, wn, wp, wdl, fail, fn, fp, fi, 
-                                fk, objs, adl, single, k, rt, cnt, rdy, enq, 
-                                wq, pn >>
+                                lpar, wfor, freeing, badret, vcount, uaf, 
+                                taint4, taint5, tn, p, dn, nt, xn, xcl, wn, wp, 
+                                wdl, fail, fn, fp, fi, fk, objs, adl, single, 
+                                k, rt, cnt, rdy, enq, wq, sdl, scn, sct, sldl, 
+                                snear, sso, st, pn >>
 
 nc_6_ul(self) == /\ pc[self] = "nc_6_ul"
                  /\ lk' = [lk EXCEPT ![klist[self][i[self]]] = 0]
@@ -447,10 +522,12 @@ nc_6_ul(self) == /\ pc[self] = "nc_6_ul"
                  /\ pc' = [pc EXCEPT ![self] = "nc_k_l"]
                  /\ UNCHANGED << live, notified, exp, par, kids, wts, disc, 
                                  nww, sem, now, ip, ret, dres, called, dl0, 
-                                 lpar, wfor, freeing, uaf, taint4, taint5, 
-                                 stack, cn, cp, klist, w, tn, p, dn, nt, xn, 
-                                 wn, wp, wdl, fail, fn, fp, fi, fk, objs, adl, 
-                                 single, k, rt, cnt, rdy, enq, wq, pn >>
+                                 lpar, wfor, freeing, badret, vcount, uaf, 
+                                 taint4, taint5, stack, cn, cp, klist, w, tn, 
+                                 p, dn, nt, xn, xcl, wn, wp, wdl, fail, fn, fp, 
+                                 fi, fk, objs, adl, single, k, rt, cnt, rdy, 
+                                 enq, wq, sdl, scn, sct, sldl, snear, sso, st, 
+                                 pn >>
 
 nc_7_r(self) == /\ pc[self] = "nc_7_r"
                 /\ IF kids[cn[self]] # <<>>
@@ -460,10 +537,11 @@ nc_7_r(self) == /\ pc[self] = "nc_7_r"
                            /\ lk' = lk
                 /\ UNCHANGED << live, notified, exp, par, kids, wts, disc, nww, 
                                 sem, now, ip, ret, dres, called, dl0, lpar, 
-                                wfor, freeing, uaf, taint4, taint5, stack, cn, 
-                                cp, i, klist, w, tn, p, dn, nt, xn, wn, wp, 
-                                wdl, fail, fn, fp, fi, fk, objs, adl, single, 
-                                k, rt, cnt, rdy, enq, wq, pn >>
+                                wfor, freeing, badret, vcount, uaf, taint4, 
+                                taint5, stack, cn, cp, i, klist, w, tn, p, dn, 
+                                nt, xn, xcl, wn, wp, wdl, fail, fn, fp, fi, fk, 
+                                objs, adl, single, k, rt, cnt, rdy, enq, wq, 
+                                sdl, scn, sct, sldl, snear, sso, st, pn >>
 
 nc_8_lk(self) == /\ pc[self] = "nc_8_lk"
                  /\ lk[cn[self]] = 0 /\ kids[cn[self]] = <<>>
@@ -471,10 +549,12 @@ nc_8_lk(self) == /\ pc[self] = "nc_8_lk"
                  /\ pc' = [pc EXCEPT ![self] = "nc_9_l"]
                  /\ UNCHANGED << live, notified, exp, par, kids, wts, disc, 
                                  nww, sem, now, ip, ret, dres, called, dl0, 
-                                 lpar, wfor, freeing, uaf, taint4, taint5, 
-                                 stack, cn, cp, i, klist, w, tn, p, dn, nt, xn, 
-                                 wn, wp, wdl, fail, fn, fp, fi, fk, objs, adl, 
-                                 single, k, rt, cnt, rdy, enq, wq, pn >>
+                                 lpar, wfor, freeing, badret, vcount, uaf, 
+                                 taint4, taint5, stack, cn, cp, i, klist, w, 
+                                 tn, p, dn, nt, xn, xcl, wn, wp, wdl, fail, fn, 
+                                 fp, fi, fk, objs, adl, single, k, rt, cnt, 
+                                 rdy, enq, wq, sdl, scn, sct, sldl, snear, sso, 
+                                 st, pn >>
 
 nc_9_l(self) == /\ pc[self] = "nc_9_l"
                 /\ IF cp[self] # 0
@@ -493,9 +573,10 @@ nc_9_l(self) == /\ pc[self] = "nc_9_l"
                 /\ stack' = [stack EXCEPT ![self] = Tail(stack[self])]
                 /\ UNCHANGED << live, notified, exp, wts, disc, lk, nww, sem, 
                                 now, ip, ret, dres, called, dl0, lpar, freeing, 
-                                taint4, taint5, tn, p, dn, nt, xn, wn, wp, wdl, 
-                                fail, fn, fp, fi, fk, objs, adl, single, k, rt, 
-                                cnt, rdy, enq, wq, pn >>
+                                badret, vcount, taint4, taint5, tn, p, dn, nt, 
+                                xn, xcl, wn, wp, wdl, fail, fn, fp, fi, fk, 
+                                objs, adl, single, k, rt, cnt, rdy, enq, wq, 
+                                sdl, scn, sct, sldl, snear, sso, st, pn >>
 
 notify_child(self) == nc_1_ld(self) \/ nc_2_st(self) \/ nc_w_l(self)
                          \/ nc_3_st(self) \/ nc_4_v(self) \/ nc_k_l(self)
@@ -509,10 +590,11 @@ nt_1_lk(self) == /\ pc[self] = "nt_1_lk"
                  /\ pc' = [pc EXCEPT ![self] = "nt_2_ld"]
                  /\ UNCHANGED << live, notified, exp, par, kids, wts, disc, 
                                  nww, sem, now, ip, ret, dres, called, dl0, 
-                                 lpar, wfor, freeing, taint4, taint5, stack, 
-                                 cn, cp, i, klist, w, tn, p, dn, nt, xn, wn, 
-                                 wp, wdl, fail, fn, fp, fi, fk, objs, adl, 
-                                 single, k, rt, cnt, rdy, enq, wq, pn >>
+                                 lpar, wfor, freeing, badret, vcount, taint4, 
+                                 taint5, stack, cn, cp, i, klist, w, tn, p, dn, 
+                                 nt, xn, xcl, wn, wp, wdl, fail, fn, fp, fi, 
+                                 fk, objs, adl, single, k, rt, cnt, rdy, enq, 
+                                 wq, sdl, scn, sct, sldl, snear, sso, st, pn >>
 
 nt_2_ld(self) == /\ pc[self] = "nt_2_ld"
                  /\ IF NTime(tn[self]) = ZERO
@@ -523,10 +605,11 @@ nt_2_ld(self) == /\ pc[self] = "nt_2_ld"
                             /\ pc' = [pc EXCEPT ![self] = "nt_2_l"]
                  /\ UNCHANGED << live, notified, exp, par, kids, wts, lk, nww, 
                                  sem, now, ip, ret, dres, called, dl0, lpar, 
-                                 wfor, freeing, uaf, taint4, taint5, stack, cn, 
-                                 cp, i, klist, w, tn, dn, nt, xn, wn, wp, wdl, 
-                                 fail, fn, fp, fi, fk, objs, adl, single, k, 
-                                 rt, cnt, rdy, enq, wq, pn >>
+                                 wfor, freeing, badret, vcount, uaf, taint4, 
+                                 taint5, stack, cn, cp, i, klist, w, tn, dn, 
+                                 nt, xn, xcl, wn, wp, wdl, fail, fn, fp, fi, 
+                                 fk, objs, adl, single, k, rt, cnt, rdy, enq, 
+                                 wq, sdl, scn, sct, sldl, snear, sso, st, pn >>
 
 nt_2_l(self) == /\ pc[self] = "nt_2_l"
                 /\ IF p[self] = 0
@@ -534,10 +617,12 @@ nt_2_l(self) == /\ pc[self] = "nt_2_l"
                       ELSE /\ pc' = [pc EXCEPT ![self] = "nt_3_r"]
                 /\ UNCHANGED << live, notified, exp, par, kids, wts, disc, lk, 
                                 nww, sem, now, ip, ret, dres, called, dl0, 
-                                lpar, wfor, freeing, uaf, taint4, taint5, 
-                                stack, cn, cp, i, klist, w, tn, p, dn, nt, xn, 
-                                wn, wp, wdl, fail, fn, fp, fi, fk, objs, adl, 
-                                single, k, rt, cnt, rdy, enq, wq, pn >>
+                                lpar, wfor, freeing, badret, vcount, uaf, 
+                                taint4, taint5, stack, cn, cp, i, klist, w, tn, 
+                                p, dn, nt, xn, xcl, wn, wp, wdl, fail, fn, fp, 
+                                fi, fk, objs, adl, single, k, rt, cnt, rdy, 
+                                enq, wq, sdl, scn, sct, sldl, snear, sso, st, 
+                                pn >>
 
 nt_3_r(self) == /\ pc[self] = "nt_3_r"
                 /\ uaf' = (uaf \/ Touch(p[self]))
@@ -548,20 +633,23 @@ nt_3_r(self) == /\ pc[self] = "nt_3_r"
                            /\ lk' = lk
                 /\ UNCHANGED << live, notified, exp, par, kids, wts, disc, nww, 
                                 sem, now, ip, ret, dres, called, dl0, lpar, 
-                                wfor, freeing, taint4, taint5, stack, cn, cp, 
-                                i, klist, w, tn, p, dn, nt, xn, wn, wp, wdl, 
-                                fail, fn, fp, fi, fk, objs, adl, single, k, rt, 
-                                cnt, rdy, enq, wq, pn >>
+                                wfor, freeing, badret, vcount, taint4, taint5, 
+                                stack, cn, cp, i, klist, w, tn, p, dn, nt, xn, 
+                                xcl, wn, wp, wdl, fail, fn, fp, fi, fk, objs, 
+                                adl, single, k, rt, cnt, rdy, enq, wq, sdl, 
+                                scn, sct, sldl, snear, sso, st, pn >>
 
 nt_4_ul(self) == /\ pc[self] = "nt_4_ul"
                  /\ lk' = [lk EXCEPT ![tn[self]] = 0]
                  /\ pc' = [pc EXCEPT ![self] = "nt_5_lk"]
                  /\ UNCHANGED << live, notified, exp, par, kids, wts, disc, 
                                  nww, sem, now, ip, ret, dres, called, dl0, 
-                                 lpar, wfor, freeing, uaf, taint4, taint5, 
-                                 stack, cn, cp, i, klist, w, tn, p, dn, nt, xn, 
-                                 wn, wp, wdl, fail, fn, fp, fi, fk, objs, adl, 
-                                 single, k, rt, cnt, rdy, enq, wq, pn >>
+                                 lpar, wfor, freeing, badret, vcount, uaf, 
+                                 taint4, taint5, stack, cn, cp, i, klist, w, 
+                                 tn, p, dn, nt, xn, xcl, wn, wp, wdl, fail, fn, 
+                                 fp, fi, fk, objs, adl, single, k, rt, cnt, 
+                                 rdy, enq, wq, sdl, scn, sct, sldl, snear, sso, 
+                                 st, pn >>
 
 nt_5_lk(self) == /\ pc[self] = "nt_5_lk"
                  /\ lk[p[self]] = 0
@@ -571,10 +659,11 @@ nt_5_lk(self) == /\ pc[self] = "nt_5_lk"
                  /\ pc' = [pc EXCEPT ![self] = "nt_6_lk"]
                  /\ UNCHANGED << live, notified, exp, par, kids, wts, disc, 
                                  nww, sem, now, ip, ret, dres, called, dl0, 
-                                 lpar, wfor, freeing, taint4, stack, cn, cp, i, 
-                                 klist, w, tn, p, dn, nt, xn, wn, wp, wdl, 
-                                 fail, fn, fp, fi, fk, objs, adl, single, k, 
-                                 rt, cnt, rdy, enq, wq, pn >>
+                                 lpar, wfor, freeing, badret, vcount, taint4, 
+                                 stack, cn, cp, i, klist, w, tn, p, dn, nt, xn, 
+                                 xcl, wn, wp, wdl, fail, fn, fp, fi, fk, objs, 
+                                 adl, single, k, rt, cnt, rdy, enq, wq, sdl, 
+                                 scn, sct, sldl, snear, sso, st, pn >>
 
 nt_6_lk(self) == /\ pc[self] = "nt_6_lk"
                  /\ lk[tn[self]] = 0
@@ -582,10 +671,12 @@ nt_6_lk(self) == /\ pc[self] = "nt_6_lk"
                  /\ pc' = [pc EXCEPT ![self] = "nt_7_l"]
                  /\ UNCHANGED << live, notified, exp, par, kids, wts, disc, 
                                  nww, sem, now, ip, ret, dres, called, dl0, 
-                                 lpar, wfor, freeing, uaf, taint4, taint5, 
-                                 stack, cn, cp, i, klist, w, tn, p, dn, nt, xn, 
-                                 wn, wp, wdl, fail, fn, fp, fi, fk, objs, adl, 
-                                 single, k, rt, cnt, rdy, enq, wq, pn >>
+                                 lpar, wfor, freeing, badret, vcount, uaf, 
+                                 taint4, taint5, stack, cn, cp, i, klist, w, 
+                                 tn, p, dn, nt, xn, xcl, wn, wp, wdl, fail, fn, 
+                                 fp, fi, fk, objs, adl, single, k, rt, cnt, 
+                                 rdy, enq, wq, sdl, scn, sct, sldl, snear, sso, 
+                                 st, pn >>
 
 nt_7_l(self) == /\ pc[self] = "nt_7_l"
                 /\ /\ cn' = [cn EXCEPT ![self] = tn[self]]
@@ -604,10 +695,11 @@ nt_7_l(self) == /\ pc[self] = "nt_7_l"
                 /\ pc' = [pc EXCEPT ![self] = "nc_1_ld"]
                 /\ UNCHANGED << live, notified, exp, par, kids, wts, disc, lk, 
                                 nww, sem, now, ip, ret, dres, called, dl0, 
-                                lpar, wfor, freeing, uaf, taint4, taint5, tn, 
-                                p, dn, nt, xn, wn, wp, wdl, fail, fn, fp, fi, 
-                                fk, objs, adl, single, k, rt, cnt, rdy, enq, 
-                                wq, pn >>
+                                lpar, wfor, freeing, badret, vcount, uaf, 
+                                taint4, taint5, tn, p, dn, nt, xn, xcl, wn, wp, 
+                                wdl, fail, fn, fp, fi, fk, objs, adl, single, 
+                                k, rt, cnt, rdy, enq, wq, sdl, scn, sct, sldl, 
+                                snear, sso, st, pn >>
 
 nt_7b_l(self) == /\ pc[self] = "nt_7b_l"
                  /\ IF p[self] = 0
@@ -615,10 +707,12 @@ nt_7b_l(self) == /\ pc[self] = "nt_7b_l"
                        ELSE /\ pc' = [pc EXCEPT ![self] = "nt_7_ul"]
                  /\ UNCHANGED << live, notified, exp, par, kids, wts, disc, lk, 
                                  nww, sem, now, ip, ret, dres, called, dl0, 
-                                 lpar, wfor, freeing, uaf, taint4, taint5, 
-                                 stack, cn, cp, i, klist, w, tn, p, dn, nt, xn, 
-                                 wn, wp, wdl, fail, fn, fp, fi, fk, objs, adl, 
-                                 single, k, rt, cnt, rdy, enq, wq, pn >>
+                                 lpar, wfor, freeing, badret, vcount, uaf, 
+                                 taint4, taint5, stack, cn, cp, i, klist, w, 
+                                 tn, p, dn, nt, xn, xcl, wn, wp, wdl, fail, fn, 
+                                 fp, fi, fk, objs, adl, single, k, rt, cnt, 
+                                 rdy, enq, wq, sdl, scn, sct, sldl, snear, sso, 
+                                 st, pn >>
 
 nt_7_ul(self) == /\ pc[self] = "nt_7_ul"
                  /\ lk' = [lk EXCEPT ![p[self]] = 0]
@@ -626,20 +720,22 @@ nt_7_ul(self) == /\ pc[self] = "nt_7_ul"
                  /\ pc' = [pc EXCEPT ![self] = "nt_7c_l"]
                  /\ UNCHANGED << live, notified, exp, par, kids, wts, disc, 
                                  nww, sem, now, ip, ret, dres, called, dl0, 
-                                 lpar, wfor, freeing, taint4, taint5, stack, 
-                                 cn, cp, i, klist, w, tn, p, dn, nt, xn, wn, 
-                                 wp, wdl, fail, fn, fp, fi, fk, objs, adl, 
-                                 single, k, rt, cnt, rdy, enq, wq, pn >>
+                                 lpar, wfor, freeing, badret, vcount, taint4, 
+                                 taint5, stack, cn, cp, i, klist, w, tn, p, dn, 
+                                 nt, xn, xcl, wn, wp, wdl, fail, fn, fp, fi, 
+                                 fk, objs, adl, single, k, rt, cnt, rdy, enq, 
+                                 wq, sdl, scn, sct, sldl, snear, sso, st, pn >>
 
 nt_7c_l(self) == /\ pc[self] = "nt_7c_l"
                  /\ disc' = [disc EXCEPT ![tn[self]] = disc[tn[self]] - 1]
                  /\ pc' = [pc EXCEPT ![self] = "nt_8_ul"]
                  /\ UNCHANGED << live, notified, exp, par, kids, wts, lk, nww, 
                                  sem, now, ip, ret, dres, called, dl0, lpar, 
-                                 wfor, freeing, uaf, taint4, taint5, stack, cn, 
-                                 cp, i, klist, w, tn, p, dn, nt, xn, wn, wp, 
-                                 wdl, fail, fn, fp, fi, fk, objs, adl, single, 
-                                 k, rt, cnt, rdy, enq, wq, pn >>
+                                 wfor, freeing, badret, vcount, uaf, taint4, 
+                                 taint5, stack, cn, cp, i, klist, w, tn, p, dn, 
+                                 nt, xn, xcl, wn, wp, wdl, fail, fn, fp, fi, 
+                                 fk, objs, adl, single, k, rt, cnt, rdy, enq, 
+                                 wq, sdl, scn, sct, sldl, snear, sso, st, pn >>
 
 nt_8_ul(self) == /\ pc[self] = "nt_8_ul"
                  /\ lk' = [lk EXCEPT ![tn[self]] = 0]
@@ -649,10 +745,11 @@ nt_8_ul(self) == /\ pc[self] = "nt_8_ul"
                  /\ stack' = [stack EXCEPT ![self] = Tail(stack[self])]
                  /\ UNCHANGED << live, notified, exp, par, kids, wts, disc, 
                                  nww, sem, now, ip, ret, dres, called, dl0, 
-                                 lpar, wfor, freeing, uaf, taint4, taint5, cn, 
-                                 cp, i, klist, w, dn, nt, xn, wn, wp, wdl, 
-                                 fail, fn, fp, fi, fk, objs, adl, single, k, 
-                                 rt, cnt, rdy, enq, wq, pn >>
+                                 lpar, wfor, freeing, badret, vcount, uaf, 
+                                 taint4, taint5, cn, cp, i, klist, w, dn, nt, 
+                                 xn, xcl, wn, wp, wdl, fail, fn, fp, fi, fk, 
+                                 objs, adl, single, k, rt, cnt, rdy, enq, wq, 
+                                 sdl, scn, sct, sldl, snear, sso, st, pn >>
 
 notify(self) == nt_1_lk(self) \/ nt_2_ld(self) \/ nt_2_l(self)
                    \/ nt_3_r(self) \/ nt_4_ul(self) \/ nt_5_lk(self)
@@ -671,10 +768,11 @@ nd_1_ld(self) == /\ pc[self] = "nd_1_ld"
                             /\ UNCHANGED << dres, stack, dn, nt >>
                  /\ UNCHANGED << live, notified, exp, par, kids, wts, disc, lk, 
                                  nww, sem, now, ip, ret, called, dl0, lpar, 
-                                 wfor, freeing, taint4, taint5, cn, cp, i, 
-                                 klist, w, tn, p, xn, wn, wp, wdl, fail, fn, 
-                                 fp, fi, fk, objs, adl, single, k, rt, cnt, 
-                                 rdy, enq, wq, pn >>
+                                 wfor, freeing, badret, vcount, taint4, taint5, 
+                                 cn, cp, i, klist, w, tn, p, xn, xcl, wn, wp, 
+                                 wdl, fail, fn, fp, fi, fk, objs, adl, single, 
+                                 k, rt, cnt, rdy, enq, wq, sdl, scn, sct, sldl, 
+                                 snear, sso, st, pn >>
 
 nd_2_lk(self) == /\ pc[self] = "nd_2_lk"
                  /\ lk[dn[self]] = 0
@@ -682,20 +780,24 @@ nd_2_lk(self) == /\ pc[self] = "nd_2_lk"
                  /\ pc' = [pc EXCEPT ![self] = "nd_3_ld"]
                  /\ UNCHANGED << live, notified, exp, par, kids, wts, disc, 
                                  nww, sem, now, ip, ret, dres, called, dl0, 
-                                 lpar, wfor, freeing, uaf, taint4, taint5, 
-                                 stack, cn, cp, i, klist, w, tn, p, dn, nt, xn, 
-                                 wn, wp, wdl, fail, fn, fp, fi, fk, objs, adl, 
-                                 single, k, rt, cnt, rdy, enq, wq, pn >>
+                                 lpar, wfor, freeing, badret, vcount, uaf, 
+                                 taint4, taint5, stack, cn, cp, i, klist, w, 
+                                 tn, p, dn, nt, xn, xcl, wn, wp, wdl, fail, fn, 
+                                 fp, fi, fk, objs, adl, single, k, rt, cnt, 
+                                 rdy, enq, wq, sdl, scn, sct, sldl, snear, sso, 
+                                 st, pn >>
 
 nd_3_ld(self) == /\ pc[self] = "nd_3_ld"
                  /\ nt' = [nt EXCEPT ![self] = NTime(dn[self])]
                  /\ pc' = [pc EXCEPT ![self] = "nd_4_ul"]
                  /\ UNCHANGED << live, notified, exp, par, kids, wts, disc, lk, 
                                  nww, sem, now, ip, ret, dres, called, dl0, 
-                                 lpar, wfor, freeing, uaf, taint4, taint5, 
-                                 stack, cn, cp, i, klist, w, tn, p, dn, xn, wn, 
-                                 wp, wdl, fail, fn, fp, fi, fk, objs, adl, 
-                                 single, k, rt, cnt, rdy, enq, wq, pn >>
+                                 lpar, wfor, freeing, badret, vcount, uaf, 
+                                 taint4, taint5, stack, cn, cp, i, klist, w, 
+                                 tn, p, dn, xn, xcl, wn, wp, wdl, fail, fn, fp, 
+                                 fi, fk, objs, adl, single, k, rt, cnt, rdy, 
+                                 enq, wq, sdl, scn, sct, sldl, snear, sso, st, 
+                                 pn >>
 
 nd_4_ul(self) == /\ pc[self] = "nd_4_ul"
                  /\ lk' = [lk EXCEPT ![dn[self]] = 0]
@@ -717,10 +819,11 @@ nd_4_ul(self) == /\ pc[self] = "nd_4_ul"
                             /\ UNCHANGED << tn, p >>
                  /\ UNCHANGED << live, notified, exp, par, kids, wts, disc, 
                                  nww, sem, now, ip, ret, called, dl0, lpar, 
-                                 wfor, freeing, uaf, taint4, taint5, cn, cp, i, 
-                                 klist, w, xn, wn, wp, wdl, fail, fn, fp, fi, 
-                                 fk, objs, adl, single, k, rt, cnt, rdy, enq, 
-                                 wq, pn >>
+                                 wfor, freeing, badret, vcount, uaf, taint4, 
+                                 taint5, cn, cp, i, klist, w, xn, xcl, wn, wp, 
+                                 wdl, fail, fn, fp, fi, fk, objs, adl, single, 
+                                 k, rt, cnt, rdy, enq, wq, sdl, scn, sct, sldl, 
+                                 snear, sso, st, pn >>
 
 nd_5_l(self) == /\ pc[self] = "nd_5_l"
                 /\ dres' = [dres EXCEPT ![self] = ZERO]
@@ -730,16 +833,17 @@ nd_5_l(self) == /\ pc[self] = "nd_5_l"
                 /\ stack' = [stack EXCEPT ![self] = Tail(stack[self])]
                 /\ UNCHANGED << live, notified, exp, par, kids, wts, disc, lk, 
                                 nww, sem, now, ip, ret, called, dl0, lpar, 
-                                wfor, freeing, uaf, taint4, taint5, cn, cp, i, 
-                                klist, w, tn, p, xn, wn, wp, wdl, fail, fn, fp, 
-                                fi, fk, objs, adl, single, k, rt, cnt, rdy, 
-                                enq, wq, pn >>
+                                wfor, freeing, badret, vcount, uaf, taint4, 
+                                taint5, cn, cp, i, klist, w, tn, p, xn, xcl, 
+                                wn, wp, wdl, fail, fn, fp, fi, fk, objs, adl, 
+                                single, k, rt, cnt, rdy, enq, wq, sdl, scn, 
+                                sct, sldl, snear, sso, st, pn >>
 
 ndeadline(self) == nd_1_ld(self) \/ nd_2_lk(self) \/ nd_3_ld(self)
                       \/ nd_4_ul(self) \/ nd_5_l(self)
 
 nx_0_l(self) == /\ pc[self] = "nx_0_l"
-                /\ called' = [called EXCEPT ![xn[self]] = TRUE]
+                /\ called' = [called EXCEPT ![xn[self]] = called[xn[self]] \/ xcl[self]]
                 /\ /\ dn' = [dn EXCEPT ![self] = xn[self]]
                    /\ stack' = [stack EXCEPT ![self] = << [ procedure |->  "ndeadline",
                                                             pc        |->  "nx_1_l",
@@ -750,10 +854,11 @@ nx_0_l(self) == /\ pc[self] = "nx_0_l"
                 /\ pc' = [pc EXCEPT ![self] = "nd_1_ld"]
                 /\ UNCHANGED << live, notified, exp, par, kids, wts, disc, lk, 
                                 nww, sem, now, ip, ret, dres, dl0, lpar, wfor, 
-                                freeing, uaf, taint4, taint5, cn, cp, i, klist, 
-                                w, tn, p, xn, wn, wp, wdl, fail, fn, fp, fi, 
-                                fk, objs, adl, single, k, rt, cnt, rdy, enq, 
-                                wq, pn >>
+                                freeing, badret, vcount, uaf, taint4, taint5, 
+                                cn, cp, i, klist, w, tn, p, xn, xcl, wn, wp, 
+                                wdl, fail, fn, fp, fi, fk, objs, adl, single, 
+                                k, rt, cnt, rdy, enq, wq, sdl, scn, sct, sldl, 
+                                snear, sso, st, pn >>
 
 nx_1_l(self) == /\ pc[self] = "nx_1_l"
                 /\ IF dres[self] > ZERO
@@ -769,22 +874,28 @@ nx_1_l(self) == /\ pc[self] = "nx_1_l"
                            /\ UNCHANGED << stack, tn, p >>
                 /\ UNCHANGED << live, notified, exp, par, kids, wts, disc, lk, 
                                 nww, sem, now, ip, ret, dres, called, dl0, 
-                                lpar, wfor, freeing, uaf, taint4, taint5, cn, 
-                                cp, i, klist, w, dn, nt, xn, wn, wp, wdl, fail, 
-                                fn, fp, fi, fk, objs, adl, single, k, rt, cnt, 
-                                rdy, enq, wq, pn >>
+                                lpar, wfor, freeing, badret, vcount, uaf, 
+                                taint4, taint5, cn, cp, i, klist, w, dn, nt, 
+                                xn, xcl, wn, wp, wdl, fail, fn, fp, fi, fk, 
+                                objs, adl, single, k, rt, cnt, rdy, enq, wq, 
+                                sdl, scn, sct, sldl, snear, sso, st, pn >>
 
 nx_2_l(self) == /\ pc[self] = "nx_2_l"
-                /\ ret' = [ret EXCEPT ![self] = notified[xn[self]]]
+                /\ IF xcl[self]
+                      THEN /\ ret' = [ret EXCEPT ![self] = notified[xn[self]]]
+                      ELSE /\ TRUE
+                           /\ ret' = ret
                 /\ pc' = [pc EXCEPT ![self] = Head(stack[self]).pc]
                 /\ xn' = [xn EXCEPT ![self] = Head(stack[self]).xn]
+                /\ xcl' = [xcl EXCEPT ![self] = Head(stack[self]).xcl]
                 /\ stack' = [stack EXCEPT ![self] = Tail(stack[self])]
                 /\ UNCHANGED << live, notified, exp, par, kids, wts, disc, lk, 
                                 nww, sem, now, ip, dres, called, dl0, lpar, 
-                                wfor, freeing, uaf, taint4, taint5, cn, cp, i, 
-                                klist, w, tn, p, dn, nt, wn, wp, wdl, fail, fn, 
-                                fp, fi, fk, objs, adl, single, k, rt, cnt, rdy, 
-                                enq, wq, pn >>
+                                wfor, freeing, badret, vcount, uaf, taint4, 
+                                taint5, cn, cp, i, klist, w, tn, p, dn, nt, wn, 
+                                wp, wdl, fail, fn, fp, fi, fk, objs, adl, 
+                                single, k, rt, cnt, rdy, enq, wq, sdl, scn, 
+                                sct, sldl, snear, sso, st, pn >>
 
 nnotify(self) == nx_0_l(self) \/ nx_1_l(self) \/ nx_2_l(self)
 
@@ -805,10 +916,11 @@ nn_0_l(self) == /\ pc[self] = "nn_0_l"
                            /\ pc' = [pc EXCEPT ![self] = "nn_1_l"]
                            /\ UNCHANGED << ret, stack, wn, wp, wdl, fail >>
                 /\ UNCHANGED << notified, par, kids, wts, disc, lk, nww, sem, 
-                                now, ip, dres, called, wfor, freeing, uaf, 
-                                taint4, taint5, cn, cp, i, klist, w, tn, p, dn, 
-                                nt, xn, fn, fp, fi, fk, objs, adl, single, k, 
-                                rt, cnt, rdy, enq, wq, pn >>
+                                now, ip, dres, called, wfor, freeing, badret, 
+                                vcount, uaf, taint4, taint5, cn, cp, i, klist, 
+                                w, tn, p, dn, nt, xn, xcl, fn, fp, fi, fk, 
+                                objs, adl, single, k, rt, cnt, rdy, enq, wq, 
+                                sdl, scn, sct, sldl, snear, sso, st, pn >>
 
 nn_1_l(self) == /\ pc[self] = "nn_1_l"
                 /\ /\ dn' = [dn EXCEPT ![self] = wn[self]]
@@ -821,10 +933,11 @@ nn_1_l(self) == /\ pc[self] = "nn_1_l"
                 /\ pc' = [pc EXCEPT ![self] = "nd_1_ld"]
                 /\ UNCHANGED << live, notified, exp, par, kids, wts, disc, lk, 
                                 nww, sem, now, ip, ret, dres, called, dl0, 
-                                lpar, wfor, freeing, uaf, taint4, taint5, cn, 
-                                cp, i, klist, w, tn, p, xn, wn, wp, wdl, fail, 
-                                fn, fp, fi, fk, objs, adl, single, k, rt, cnt, 
-                                rdy, enq, wq, pn >>
+                                lpar, wfor, freeing, badret, vcount, uaf, 
+                                taint4, taint5, cn, cp, i, klist, w, tn, p, xn, 
+                                xcl, wn, wp, wdl, fail, fn, fp, fi, fk, objs, 
+                                adl, single, k, rt, cnt, rdy, enq, wq, sdl, 
+                                scn, sct, sldl, snear, sso, st, pn >>
 
 nn_2_l(self) == /\ pc[self] = "nn_2_l"
                 /\ IF dres[self] = ZERO \/ wp[self] = 0
@@ -840,9 +953,11 @@ nn_2_l(self) == /\ pc[self] = "nn_2_l"
                            /\ UNCHANGED << live, ret, stack, wn, wp, wdl, fail >>
                 /\ UNCHANGED << notified, exp, par, kids, wts, disc, lk, nww, 
                                 sem, now, ip, dres, called, dl0, lpar, wfor, 
-                                freeing, uaf, taint4, taint5, cn, cp, i, klist, 
-                                w, tn, p, dn, nt, xn, fn, fp, fi, fk, objs, 
-                                adl, single, k, rt, cnt, rdy, enq, wq, pn >>
+                                freeing, badret, vcount, uaf, taint4, taint5, 
+                                cn, cp, i, klist, w, tn, p, dn, nt, xn, xcl, 
+                                fn, fp, fi, fk, objs, adl, single, k, rt, cnt, 
+                                rdy, enq, wq, sdl, scn, sct, sldl, snear, sso, 
+                                st, pn >>
 
 nn_3_lk(self) == /\ pc[self] = "nn_3_lk"
                  /\ lk[wp[self]] = 0
@@ -851,10 +966,11 @@ nn_3_lk(self) == /\ pc[self] = "nn_3_lk"
                  /\ pc' = [pc EXCEPT ![self] = "nn_4_ld"]
                  /\ UNCHANGED << live, notified, exp, par, kids, wts, disc, 
                                  nww, sem, now, ip, ret, dres, called, dl0, 
-                                 lpar, wfor, freeing, taint4, taint5, stack, 
-                                 cn, cp, i, klist, w, tn, p, dn, nt, xn, wn, 
-                                 wp, wdl, fail, fn, fp, fi, fk, objs, adl, 
-                                 single, k, rt, cnt, rdy, enq, wq, pn >>
+                                 lpar, wfor, freeing, badret, vcount, taint4, 
+                                 taint5, stack, cn, cp, i, klist, w, tn, p, dn, 
+                                 nt, xn, xcl, wn, wp, wdl, fail, fn, fp, fi, 
+                                 fk, objs, adl, single, k, rt, cnt, rdy, enq, 
+                                 wq, sdl, scn, sct, sldl, snear, sso, st, pn >>
 
 nn_4_ld(self) == /\ pc[self] = "nn_4_ld"
                  /\ IF NTime(wp[self]) < wdl[self]
@@ -869,10 +985,11 @@ nn_4_ld(self) == /\ pc[self] = "nn_4_ld"
                  /\ pc' = [pc EXCEPT ![self] = "nn_5_ul"]
                  /\ UNCHANGED << live, notified, wts, disc, lk, nww, sem, now, 
                                  ip, ret, dres, called, dl0, lpar, wfor, 
-                                 freeing, uaf, taint4, taint5, stack, cn, cp, 
-                                 i, klist, w, tn, p, dn, nt, xn, wn, wp, wdl, 
-                                 fail, fn, fp, fi, fk, objs, adl, single, k, 
-                                 rt, cnt, rdy, enq, wq, pn >>
+                                 freeing, badret, vcount, uaf, taint4, taint5, 
+                                 stack, cn, cp, i, klist, w, tn, p, dn, nt, xn, 
+                                 xcl, wn, wp, wdl, fail, fn, fp, fi, fk, objs, 
+                                 adl, single, k, rt, cnt, rdy, enq, wq, sdl, 
+                                 scn, sct, sldl, snear, sso, st, pn >>
 
 nn_5_ul(self) == /\ pc[self] = "nn_5_ul"
                  /\ lk' = [lk EXCEPT ![wp[self]] = 0]
@@ -886,10 +1003,11 @@ nn_5_ul(self) == /\ pc[self] = "nn_5_ul"
                  /\ stack' = [stack EXCEPT ![self] = Tail(stack[self])]
                  /\ UNCHANGED << notified, exp, par, kids, wts, disc, nww, sem, 
                                  now, ip, dres, called, dl0, lpar, wfor, 
-                                 freeing, uaf, taint4, taint5, cn, cp, i, 
-                                 klist, w, tn, p, dn, nt, xn, fn, fp, fi, fk, 
-                                 objs, adl, single, k, rt, cnt, rdy, enq, wq, 
-                                 pn >>
+                                 freeing, badret, vcount, uaf, taint4, taint5, 
+                                 cn, cp, i, klist, w, tn, p, dn, nt, xn, xcl, 
+                                 fn, fp, fi, fk, objs, adl, single, k, rt, cnt, 
+                                 rdy, enq, wq, sdl, scn, sct, sldl, snear, sso, 
+                                 st, pn >>
 
 nnew(self) == nn_0_l(self) \/ nn_1_l(self) \/ nn_2_l(self) \/ nn_3_lk(self)
                  \/ nn_4_ld(self) \/ nn_5_ul(self)
@@ -903,10 +1021,11 @@ nf_1_lk(self) == /\ pc[self] = "nf_1_lk"
                  /\ pc' = [pc EXCEPT ![self] = "nf_1_l"]
                  /\ UNCHANGED << live, notified, exp, par, kids, wts, nww, sem, 
                                  now, ip, ret, dres, called, dl0, lpar, wfor, 
-                                 uaf, taint4, taint5, stack, cn, cp, i, klist, 
-                                 w, tn, p, dn, nt, xn, wn, wp, wdl, fail, fn, 
-                                 fi, fk, objs, adl, single, k, rt, cnt, rdy, 
-                                 enq, wq, pn >>
+                                 badret, vcount, uaf, taint4, taint5, stack, 
+                                 cn, cp, i, klist, w, tn, p, dn, nt, xn, xcl, 
+                                 wn, wp, wdl, fail, fn, fi, fk, objs, adl, 
+                                 single, k, rt, cnt, rdy, enq, wq, sdl, scn, 
+                                 sct, sldl, snear, sso, st, pn >>
 
 nf_1_l(self) == /\ pc[self] = "nf_1_l"
                 /\ IF fp[self] = 0
@@ -914,10 +1033,12 @@ nf_1_l(self) == /\ pc[self] = "nf_1_l"
                       ELSE /\ pc' = [pc EXCEPT ![self] = "nf_2_r"]
                 /\ UNCHANGED << live, notified, exp, par, kids, wts, disc, lk, 
                                 nww, sem, now, ip, ret, dres, called, dl0, 
-                                lpar, wfor, freeing, uaf, taint4, taint5, 
-                                stack, cn, cp, i, klist, w, tn, p, dn, nt, xn, 
-                                wn, wp, wdl, fail, fn, fp, fi, fk, objs, adl, 
-                                single, k, rt, cnt, rdy, enq, wq, pn >>
+                                lpar, wfor, freeing, badret, vcount, uaf, 
+                                taint4, taint5, stack, cn, cp, i, klist, w, tn, 
+                                p, dn, nt, xn, xcl, wn, wp, wdl, fail, fn, fp, 
+                                fi, fk, objs, adl, single, k, rt, cnt, rdy, 
+                                enq, wq, sdl, scn, sct, sldl, snear, sso, st, 
+                                pn >>
 
 nf_2_r(self) == /\ pc[self] = "nf_2_r"
                 /\ IF lk[fp[self]] = 0
@@ -927,20 +1048,23 @@ nf_2_r(self) == /\ pc[self] = "nf_2_r"
                            /\ lk' = lk
                 /\ UNCHANGED << live, notified, exp, par, kids, wts, disc, nww, 
                                 sem, now, ip, ret, dres, called, dl0, lpar, 
-                                wfor, freeing, uaf, taint4, taint5, stack, cn, 
-                                cp, i, klist, w, tn, p, dn, nt, xn, wn, wp, 
-                                wdl, fail, fn, fp, fi, fk, objs, adl, single, 
-                                k, rt, cnt, rdy, enq, wq, pn >>
+                                wfor, freeing, badret, vcount, uaf, taint4, 
+                                taint5, stack, cn, cp, i, klist, w, tn, p, dn, 
+                                nt, xn, xcl, wn, wp, wdl, fail, fn, fp, fi, fk, 
+                                objs, adl, single, k, rt, cnt, rdy, enq, wq, 
+                                sdl, scn, sct, sldl, snear, sso, st, pn >>
 
 nf_3_ul(self) == /\ pc[self] = "nf_3_ul"
                  /\ lk' = [lk EXCEPT ![fn[self]] = 0]
                  /\ pc' = [pc EXCEPT ![self] = "nf_4_lk"]
                  /\ UNCHANGED << live, notified, exp, par, kids, wts, disc, 
                                  nww, sem, now, ip, ret, dres, called, dl0, 
-                                 lpar, wfor, freeing, uaf, taint4, taint5, 
-                                 stack, cn, cp, i, klist, w, tn, p, dn, nt, xn, 
-                                 wn, wp, wdl, fail, fn, fp, fi, fk, objs, adl, 
-                                 single, k, rt, cnt, rdy, enq, wq, pn >>
+                                 lpar, wfor, freeing, badret, vcount, uaf, 
+                                 taint4, taint5, stack, cn, cp, i, klist, w, 
+                                 tn, p, dn, nt, xn, xcl, wn, wp, wdl, fail, fn, 
+                                 fp, fi, fk, objs, adl, single, k, rt, cnt, 
+                                 rdy, enq, wq, sdl, scn, sct, sldl, snear, sso, 
+                                 st, pn >>
 
 nf_4_lk(self) == /\ pc[self] = "nf_4_lk"
                  /\ lk[fp[self]] = 0
@@ -949,10 +1073,11 @@ nf_4_lk(self) == /\ pc[self] = "nf_4_lk"
                  /\ pc' = [pc EXCEPT ![self] = "nf_4b_lk"]
                  /\ UNCHANGED << live, notified, exp, par, kids, wts, disc, 
                                  nww, sem, now, ip, ret, dres, called, dl0, 
-                                 lpar, wfor, freeing, taint4, taint5, stack, 
-                                 cn, cp, i, klist, w, tn, p, dn, nt, xn, wn, 
-                                 wp, wdl, fail, fn, fp, fi, fk, objs, adl, 
-                                 single, k, rt, cnt, rdy, enq, wq, pn >>
+                                 lpar, wfor, freeing, badret, vcount, taint4, 
+                                 taint5, stack, cn, cp, i, klist, w, tn, p, dn, 
+                                 nt, xn, xcl, wn, wp, wdl, fail, fn, fp, fi, 
+                                 fk, objs, adl, single, k, rt, cnt, rdy, enq, 
+                                 wq, sdl, scn, sct, sldl, snear, sso, st, pn >>
 
 nf_4b_lk(self) == /\ pc[self] = "nf_4b_lk"
                   /\ lk[fn[self]] = 0
@@ -960,10 +1085,12 @@ nf_4b_lk(self) == /\ pc[self] = "nf_4b_lk"
                   /\ pc' = [pc EXCEPT ![self] = "nf_5_l"]
                   /\ UNCHANGED << live, notified, exp, par, kids, wts, disc, 
                                   nww, sem, now, ip, ret, dres, called, dl0, 
-                                  lpar, wfor, freeing, uaf, taint4, taint5, 
-                                  stack, cn, cp, i, klist, w, tn, p, dn, nt, 
-                                  xn, wn, wp, wdl, fail, fn, fp, fi, fk, objs, 
-                                  adl, single, k, rt, cnt, rdy, enq, wq, pn >>
+                                  lpar, wfor, freeing, badret, vcount, uaf, 
+                                  taint4, taint5, stack, cn, cp, i, klist, w, 
+                                  tn, p, dn, nt, xn, xcl, wn, wp, wdl, fail, 
+                                  fn, fp, fi, fk, objs, adl, single, k, rt, 
+                                  cnt, rdy, enq, wq, sdl, scn, sct, sldl, 
+                                  snear, sso, st, pn >>
 
 nf_5_l(self) == /\ pc[self] = "nf_5_l"
                 /\ fk' = [fk EXCEPT ![self] = kids[fn[self]]]
@@ -971,10 +1098,11 @@ nf_5_l(self) == /\ pc[self] = "nf_5_l"
                 /\ pc' = [pc EXCEPT ![self] = "nf_k_l"]
                 /\ UNCHANGED << live, notified, exp, par, kids, wts, disc, lk, 
                                 nww, sem, now, ip, ret, dres, called, dl0, 
-                                lpar, wfor, freeing, uaf, taint4, taint5, 
-                                stack, cn, cp, i, klist, w, tn, p, dn, nt, xn, 
-                                wn, wp, wdl, fail, fn, fp, objs, adl, single, 
-                                k, rt, cnt, rdy, enq, wq, pn >>
+                                lpar, wfor, freeing, badret, vcount, uaf, 
+                                taint4, taint5, stack, cn, cp, i, klist, w, tn, 
+                                p, dn, nt, xn, xcl, wn, wp, wdl, fail, fn, fp, 
+                                objs, adl, single, k, rt, cnt, rdy, enq, wq, 
+                                sdl, scn, sct, sldl, snear, sso, st, pn >>
 
 nf_k_l(self) == /\ pc[self] = "nf_k_l"
                 /\ IF fi[self] > Len(fk[self])
@@ -982,10 +1110,12 @@ nf_k_l(self) == /\ pc[self] = "nf_k_l"
                       ELSE /\ pc' = [pc EXCEPT ![self] = "nf_6_lk"]
                 /\ UNCHANGED << live, notified, exp, par, kids, wts, disc, lk, 
                                 nww, sem, now, ip, ret, dres, called, dl0, 
-                                lpar, wfor, freeing, uaf, taint4, taint5, 
-                                stack, cn, cp, i, klist, w, tn, p, dn, nt, xn, 
-                                wn, wp, wdl, fail, fn, fp, fi, fk, objs, adl, 
-                                single, k, rt, cnt, rdy, enq, wq, pn >>
+                                lpar, wfor, freeing, badret, vcount, uaf, 
+                                taint4, taint5, stack, cn, cp, i, klist, w, tn, 
+                                p, dn, nt, xn, xcl, wn, wp, wdl, fail, fn, fp, 
+                                fi, fk, objs, adl, single, k, rt, cnt, rdy, 
+                                enq, wq, sdl, scn, sct, sldl, snear, sso, st, 
+                                pn >>
 
 nf_6_lk(self) == /\ pc[self] = "nf_6_lk"
                  /\ lk[fk[self][fi[self]]] = 0
@@ -993,10 +1123,12 @@ nf_6_lk(self) == /\ pc[self] = "nf_6_lk"
                  /\ pc' = [pc EXCEPT ![self] = "nf_6_l"]
                  /\ UNCHANGED << live, notified, exp, par, kids, wts, disc, 
                                  nww, sem, now, ip, ret, dres, called, dl0, 
-                                 lpar, wfor, freeing, uaf, taint4, taint5, 
-                                 stack, cn, cp, i, klist, w, tn, p, dn, nt, xn, 
-                                 wn, wp, wdl, fail, fn, fp, fi, fk, objs, adl, 
-                                 single, k, rt, cnt, rdy, enq, wq, pn >>
+                                 lpar, wfor, freeing, badret, vcount, uaf, 
+                                 taint4, taint5, stack, cn, cp, i, klist, w, 
+                                 tn, p, dn, nt, xn, xcl, wn, wp, wdl, fail, fn, 
+                                 fp, fi, fk, objs, adl, single, k, rt, cnt, 
+                                 rdy, enq, wq, sdl, scn, sct, sldl, snear, sso, 
+                                 st, pn >>
 
 nf_6_l(self) == /\ pc[self] = "nf_6_l"
                 /\ IF disc[fk[self][fi[self]]] = 0
@@ -1009,10 +1141,11 @@ nf_6_l(self) == /\ pc[self] = "nf_6_l"
                 /\ pc' = [pc EXCEPT ![self] = "nf_7_ul"]
                 /\ UNCHANGED << live, notified, exp, wts, disc, lk, nww, sem, 
                                 now, ip, ret, dres, called, dl0, lpar, wfor, 
-                                freeing, uaf, taint5, stack, cn, cp, i, klist, 
-                                w, tn, p, dn, nt, xn, wn, wp, wdl, fail, fn, 
-                                fp, fi, fk, objs, adl, single, k, rt, cnt, rdy, 
-                                enq, wq, pn >>
+                                freeing, badret, vcount, uaf, taint5, stack, 
+                                cn, cp, i, klist, w, tn, p, dn, nt, xn, xcl, 
+                                wn, wp, wdl, fail, fn, fp, fi, fk, objs, adl, 
+                                single, k, rt, cnt, rdy, enq, wq, sdl, scn, 
+                                sct, sldl, snear, sso, st, pn >>
 
 nf_7_ul(self) == /\ pc[self] = "nf_7_ul"
                  /\ lk' = [lk EXCEPT ![fk[self][fi[self]]] = 0]
@@ -1020,10 +1153,12 @@ nf_7_ul(self) == /\ pc[self] = "nf_7_ul"
                  /\ pc' = [pc EXCEPT ![self] = "nf_k_l"]
                  /\ UNCHANGED << live, notified, exp, par, kids, wts, disc, 
                                  nww, sem, now, ip, ret, dres, called, dl0, 
-                                 lpar, wfor, freeing, uaf, taint4, taint5, 
-                                 stack, cn, cp, i, klist, w, tn, p, dn, nt, xn, 
-                                 wn, wp, wdl, fail, fn, fp, fk, objs, adl, 
-                                 single, k, rt, cnt, rdy, enq, wq, pn >>
+                                 lpar, wfor, freeing, badret, vcount, uaf, 
+                                 taint4, taint5, stack, cn, cp, i, klist, w, 
+                                 tn, p, dn, nt, xn, xcl, wn, wp, wdl, fail, fn, 
+                                 fp, fk, objs, adl, single, k, rt, cnt, rdy, 
+                                 enq, wq, sdl, scn, sct, sldl, snear, sso, st, 
+                                 pn >>
 
 nf_8_r(self) == /\ pc[self] = "nf_8_r"
                 /\ IF kids[fn[self]] # <<>>
@@ -1033,10 +1168,11 @@ nf_8_r(self) == /\ pc[self] = "nf_8_r"
                            /\ lk' = lk
                 /\ UNCHANGED << live, notified, exp, par, kids, wts, disc, nww, 
                                 sem, now, ip, ret, dres, called, dl0, lpar, 
-                                wfor, freeing, uaf, taint4, taint5, stack, cn, 
-                                cp, i, klist, w, tn, p, dn, nt, xn, wn, wp, 
-                                wdl, fail, fn, fp, fi, fk, objs, adl, single, 
-                                k, rt, cnt, rdy, enq, wq, pn >>
+                                wfor, freeing, badret, vcount, uaf, taint4, 
+                                taint5, stack, cn, cp, i, klist, w, tn, p, dn, 
+                                nt, xn, xcl, wn, wp, wdl, fail, fn, fp, fi, fk, 
+                                objs, adl, single, k, rt, cnt, rdy, enq, wq, 
+                                sdl, scn, sct, sldl, snear, sso, st, pn >>
 
 nf_9_lk(self) == /\ pc[self] = "nf_9_lk"
                  /\ lk[fn[self]] = 0 /\ kids[fn[self]] = <<>>
@@ -1044,10 +1180,12 @@ nf_9_lk(self) == /\ pc[self] = "nf_9_lk"
                  /\ pc' = [pc EXCEPT ![self] = "nf_10_l"]
                  /\ UNCHANGED << live, notified, exp, par, kids, wts, disc, 
                                  nww, sem, now, ip, ret, dres, called, dl0, 
-                                 lpar, wfor, freeing, uaf, taint4, taint5, 
-                                 stack, cn, cp, i, klist, w, tn, p, dn, nt, xn, 
-                                 wn, wp, wdl, fail, fn, fp, fi, fk, objs, adl, 
-                                 single, k, rt, cnt, rdy, enq, wq, pn >>
+                                 lpar, wfor, freeing, badret, vcount, uaf, 
+                                 taint4, taint5, stack, cn, cp, i, klist, w, 
+                                 tn, p, dn, nt, xn, xcl, wn, wp, wdl, fail, fn, 
+                                 fp, fi, fk, objs, adl, single, k, rt, cnt, 
+                                 rdy, enq, wq, sdl, scn, sct, sldl, snear, sso, 
+                                 st, pn >>
 
 nf_10_l(self) == /\ pc[self] = "nf_10_l"
                  /\ IF fp[self] = 0
@@ -1058,34 +1196,39 @@ nf_10_l(self) == /\ pc[self] = "nf_10_l"
                             /\ pc' = [pc EXCEPT ![self] = "nf_11_ul"]
                  /\ UNCHANGED << live, notified, exp, wts, disc, lk, nww, sem, 
                                  now, ip, ret, dres, called, dl0, lpar, wfor, 
-                                 freeing, uaf, taint4, taint5, stack, cn, cp, 
-                                 i, klist, w, tn, p, dn, nt, xn, wn, wp, wdl, 
-                                 fail, fn, fp, fi, fk, objs, adl, single, k, 
-                                 rt, cnt, rdy, enq, wq, pn >>
+                                 freeing, badret, vcount, uaf, taint4, taint5, 
+                                 stack, cn, cp, i, klist, w, tn, p, dn, nt, xn, 
+                                 xcl, wn, wp, wdl, fail, fn, fp, fi, fk, objs, 
+                                 adl, single, k, rt, cnt, rdy, enq, wq, sdl, 
+                                 scn, sct, sldl, snear, sso, st, pn >>
 
 nf_11_ul(self) == /\ pc[self] = "nf_11_ul"
                   /\ lk' = [lk EXCEPT ![fp[self]] = 0]
                   /\ pc' = [pc EXCEPT ![self] = "nf_12_l"]
                   /\ UNCHANGED << live, notified, exp, par, kids, wts, disc, 
                                   nww, sem, now, ip, ret, dres, called, dl0, 
-                                  lpar, wfor, freeing, uaf, taint4, taint5, 
-                                  stack, cn, cp, i, klist, w, tn, p, dn, nt, 
-                                  xn, wn, wp, wdl, fail, fn, fp, fi, fk, objs, 
-                                  adl, single, k, rt, cnt, rdy, enq, wq, pn >>
+                                  lpar, wfor, freeing, badret, vcount, uaf, 
+                                  taint4, taint5, stack, cn, cp, i, klist, w, 
+                                  tn, p, dn, nt, xn, xcl, wn, wp, wdl, fail, 
+                                  fn, fp, fi, fk, objs, adl, single, k, rt, 
+                                  cnt, rdy, enq, wq, sdl, scn, sct, sldl, 
+                                  snear, sso, st, pn >>
 
 nf_12_l(self) == /\ pc[self] = "nf_12_l"
                  /\ disc' = [disc EXCEPT ![fn[self]] = disc[fn[self]] - 1]
                  /\ pc' = [pc EXCEPT ![self] = "nf_13_ul"]
                  /\ UNCHANGED << live, notified, exp, par, kids, wts, lk, nww, 
                                  sem, now, ip, ret, dres, called, dl0, lpar, 
-                                 wfor, freeing, uaf, taint4, taint5, stack, cn, 
-                                 cp, i, klist, w, tn, p, dn, nt, xn, wn, wp, 
-                                 wdl, fail, fn, fp, fi, fk, objs, adl, single, 
-                                 k, rt, cnt, rdy, enq, wq, pn >>
+                                 wfor, freeing, badret, vcount, uaf, taint4, 
+                                 taint5, stack, cn, cp, i, klist, w, tn, p, dn, 
+                                 nt, xn, xcl, wn, wp, wdl, fail, fn, fp, fi, 
+                                 fk, objs, adl, single, k, rt, cnt, rdy, enq, 
+                                 wq, sdl, scn, sct, sldl, snear, sso, st, pn >>
 
 nf_13_ul(self) == /\ pc[self] = "nf_13_ul"
                   /\ lk' = [lk EXCEPT ![fn[self]] = 0]
                   /\ live' = [live EXCEPT ![fn[self]] = "freed"]
+                  /\ called' = [x \in Notes |-> called[x] \/ (lpar[x] = fn[self] /\ (called[fn[self]] \/ (dl0[fn[self]] < NONE /\ dl0[fn[self]] <= now)))]
                   /\ lpar' = [x \in Notes |-> IF lpar[x] = fn[self] THEN lpar[fn[self]] ELSE lpar[x]]
                   /\ ret' = [ret EXCEPT ![self] = 0]
                   /\ pc' = [pc EXCEPT ![self] = Head(stack[self]).pc]
@@ -1095,11 +1238,12 @@ nf_13_ul(self) == /\ pc[self] = "nf_13_ul"
                   /\ fn' = [fn EXCEPT ![self] = Head(stack[self]).fn]
                   /\ stack' = [stack EXCEPT ![self] = Tail(stack[self])]
                   /\ UNCHANGED << notified, exp, par, kids, wts, disc, nww, 
-                                  sem, now, ip, dres, called, dl0, wfor, 
-                                  freeing, uaf, taint4, taint5, cn, cp, i, 
-                                  klist, w, tn, p, dn, nt, xn, wn, wp, wdl, 
-                                  fail, objs, adl, single, k, rt, cnt, rdy, 
-                                  enq, wq, pn >>
+                                  sem, now, ip, dres, dl0, wfor, freeing, 
+                                  badret, vcount, uaf, taint4, taint5, cn, cp, 
+                                  i, klist, w, tn, p, dn, nt, xn, xcl, wn, wp, 
+                                  wdl, fail, objs, adl, single, k, rt, cnt, 
+                                  rdy, enq, wq, sdl, scn, sct, sldl, snear, 
+                                  sso, st, pn >>
 
 nfree(self) == nf_1_lk(self) \/ nf_1_l(self) \/ nf_2_r(self)
                   \/ nf_3_ul(self) \/ nf_4_lk(self) \/ nf_4b_lk(self)
@@ -1124,10 +1268,11 @@ ws_1_l(self) == /\ pc[self] = "ws_1_l"
                            /\ k' = k
                 /\ UNCHANGED << live, notified, exp, par, kids, wts, disc, lk, 
                                 nww, sem, now, ip, ret, dres, called, dl0, 
-                                lpar, wfor, freeing, uaf, taint4, taint5, cn, 
-                                cp, i, klist, w, tn, p, xn, wn, wp, wdl, fail, 
-                                fn, fp, fi, fk, objs, adl, single, rt, cnt, 
-                                rdy, enq, wq, pn >>
+                                lpar, wfor, freeing, badret, vcount, uaf, 
+                                taint4, taint5, cn, cp, i, klist, w, tn, p, xn, 
+                                xcl, wn, wp, wdl, fail, fn, fp, fi, fk, objs, 
+                                adl, single, rt, cnt, rdy, enq, wq, sdl, scn, 
+                                sct, sldl, snear, sso, st, pn >>
 
 ws_2_l(self) == /\ pc[self] = "ws_2_l"
                 /\ IF dres[self] = ZERO
@@ -1149,9 +1294,10 @@ ws_2_l(self) == /\ pc[self] = "ws_2_l"
                                            cnt, rdy, enq, wq >>
                 /\ UNCHANGED << live, notified, exp, par, kids, wts, disc, lk, 
                                 nww, sem, now, ip, dres, called, dl0, lpar, 
-                                wfor, freeing, uaf, taint4, taint5, cn, cp, i, 
-                                klist, w, tn, p, dn, nt, xn, wn, wp, wdl, fail, 
-                                fn, fp, fi, fk, pn >>
+                                wfor, freeing, badret, vcount, uaf, taint4, 
+                                taint5, cn, cp, i, klist, w, tn, p, dn, nt, xn, 
+                                xcl, wn, wp, wdl, fail, fn, fp, fi, fk, sdl, 
+                                scn, sct, sldl, snear, sso, st, pn >>
 
 we_1_l(self) == /\ pc[self] = "we_1_l"
                 /\ IF k[self] > Len(objs[self])
@@ -1159,20 +1305,23 @@ we_1_l(self) == /\ pc[self] = "we_1_l"
                       ELSE /\ pc' = [pc EXCEPT ![self] = "wn_1_st"]
                 /\ UNCHANGED << live, notified, exp, par, kids, wts, disc, lk, 
                                 nww, sem, now, ip, ret, dres, called, dl0, 
-                                lpar, wfor, freeing, uaf, taint4, taint5, 
-                                stack, cn, cp, i, klist, w, tn, p, dn, nt, xn, 
-                                wn, wp, wdl, fail, fn, fp, fi, fk, objs, adl, 
-                                single, k, rt, cnt, rdy, enq, wq, pn >>
+                                lpar, wfor, freeing, badret, vcount, uaf, 
+                                taint4, taint5, stack, cn, cp, i, klist, w, tn, 
+                                p, dn, nt, xn, xcl, wn, wp, wdl, fail, fn, fp, 
+                                fi, fk, objs, adl, single, k, rt, cnt, rdy, 
+                                enq, wq, sdl, scn, sct, sldl, snear, sso, st, 
+                                pn >>
 
 wn_1_st(self) == /\ pc[self] = "wn_1_st"
                  /\ nww' = [nww EXCEPT ![self][objs[self][k[self]]] = 0]
                  /\ pc' = [pc EXCEPT ![self] = "ne_1_lk"]
                  /\ UNCHANGED << live, notified, exp, par, kids, wts, disc, lk, 
                                  sem, now, ip, ret, dres, called, dl0, lpar, 
-                                 wfor, freeing, uaf, taint4, taint5, stack, cn, 
-                                 cp, i, klist, w, tn, p, dn, nt, xn, wn, wp, 
-                                 wdl, fail, fn, fp, fi, fk, objs, adl, single, 
-                                 k, rt, cnt, rdy, enq, wq, pn >>
+                                 wfor, freeing, badret, vcount, uaf, taint4, 
+                                 taint5, stack, cn, cp, i, klist, w, tn, p, dn, 
+                                 nt, xn, xcl, wn, wp, wdl, fail, fn, fp, fi, 
+                                 fk, objs, adl, single, k, rt, cnt, rdy, enq, 
+                                 wq, sdl, scn, sct, sldl, snear, sso, st, pn >>
 
 ne_1_lk(self) == /\ pc[self] = "ne_1_lk"
                  /\ lk[objs[self][k[self]]] = 0
@@ -1181,10 +1330,11 @@ ne_1_lk(self) == /\ pc[self] = "ne_1_lk"
                  /\ pc' = [pc EXCEPT ![self] = "ne_2_ld"]
                  /\ UNCHANGED << live, notified, exp, par, kids, wts, disc, 
                                  nww, sem, now, ip, ret, dres, called, dl0, 
-                                 lpar, wfor, freeing, taint4, taint5, stack, 
-                                 cn, cp, i, klist, w, tn, p, dn, nt, xn, wn, 
-                                 wp, wdl, fail, fn, fp, fi, fk, objs, adl, 
-                                 single, k, rt, cnt, rdy, enq, wq, pn >>
+                                 lpar, wfor, freeing, badret, vcount, taint4, 
+                                 taint5, stack, cn, cp, i, klist, w, tn, p, dn, 
+                                 nt, xn, xcl, wn, wp, wdl, fail, fn, fp, fi, 
+                                 fk, objs, adl, single, k, rt, cnt, rdy, enq, 
+                                 wq, sdl, scn, sct, sldl, snear, sso, st, pn >>
 
 ne_2_ld(self) == /\ pc[self] = "ne_2_ld"
                  /\ enq' = [enq EXCEPT ![self] = NTime(objs[self][k[self]]) > ZERO]
@@ -1195,20 +1345,22 @@ ne_2_ld(self) == /\ pc[self] = "ne_2_ld"
                  /\ pc' = [pc EXCEPT ![self] = "ne_3_st"]
                  /\ UNCHANGED << live, notified, exp, par, kids, disc, lk, nww, 
                                  sem, now, ip, ret, dres, called, dl0, lpar, 
-                                 wfor, freeing, uaf, taint4, taint5, stack, cn, 
-                                 cp, i, klist, w, tn, p, dn, nt, xn, wn, wp, 
-                                 wdl, fail, fn, fp, fi, fk, objs, adl, single, 
-                                 k, rt, cnt, rdy, wq, pn >>
+                                 wfor, freeing, badret, vcount, uaf, taint4, 
+                                 taint5, stack, cn, cp, i, klist, w, tn, p, dn, 
+                                 nt, xn, xcl, wn, wp, wdl, fail, fn, fp, fi, 
+                                 fk, objs, adl, single, k, rt, cnt, rdy, wq, 
+                                 sdl, scn, sct, sldl, snear, sso, st, pn >>
 
 ne_3_st(self) == /\ pc[self] = "ne_3_st"
                  /\ nww' = [nww EXCEPT ![self][objs[self][k[self]]] = IF enq[self] THEN 1 ELSE 0]
                  /\ pc' = [pc EXCEPT ![self] = "ne_4_ul"]
                  /\ UNCHANGED << live, notified, exp, par, kids, wts, disc, lk, 
                                  sem, now, ip, ret, dres, called, dl0, lpar, 
-                                 wfor, freeing, uaf, taint4, taint5, stack, cn, 
-                                 cp, i, klist, w, tn, p, dn, nt, xn, wn, wp, 
-                                 wdl, fail, fn, fp, fi, fk, objs, adl, single, 
-                                 k, rt, cnt, rdy, enq, wq, pn >>
+                                 wfor, freeing, badret, vcount, uaf, taint4, 
+                                 taint5, stack, cn, cp, i, klist, w, tn, p, dn, 
+                                 nt, xn, xcl, wn, wp, wdl, fail, fn, fp, fi, 
+                                 fk, objs, adl, single, k, rt, cnt, rdy, enq, 
+                                 wq, sdl, scn, sct, sldl, snear, sso, st, pn >>
 
 ne_4_ul(self) == /\ pc[self] = "ne_4_ul"
                  /\ lk' = [lk EXCEPT ![objs[self][k[self]]] = 0]
@@ -1222,10 +1374,11 @@ ne_4_ul(self) == /\ pc[self] = "ne_4_ul"
                             /\ k' = k
                  /\ UNCHANGED << live, notified, exp, par, kids, wts, disc, 
                                  nww, sem, now, ip, ret, dres, called, dl0, 
-                                 lpar, wfor, freeing, uaf, taint4, taint5, 
-                                 stack, cn, cp, i, klist, w, tn, p, dn, nt, xn, 
-                                 wn, wp, wdl, fail, fn, fp, fi, fk, objs, adl, 
-                                 single, rt, rdy, enq, wq, pn >>
+                                 lpar, wfor, freeing, badret, vcount, uaf, 
+                                 taint4, taint5, stack, cn, cp, i, klist, w, 
+                                 tn, p, dn, nt, xn, xcl, wn, wp, wdl, fail, fn, 
+                                 fp, fi, fk, objs, adl, single, rt, rdy, enq, 
+                                 wq, sdl, scn, sct, sldl, snear, sso, st, pn >>
 
 wl_0_l(self) == /\ pc[self] = "wl_0_l"
                 /\ k' = [k EXCEPT ![self] = 1]
@@ -1233,10 +1386,11 @@ wl_0_l(self) == /\ pc[self] = "wl_0_l"
                 /\ pc' = [pc EXCEPT ![self] = "wl_1_l"]
                 /\ UNCHANGED << live, notified, exp, par, kids, wts, disc, lk, 
                                 nww, sem, now, ip, ret, dres, called, dl0, 
-                                lpar, wfor, freeing, uaf, taint4, taint5, 
-                                stack, cn, cp, i, klist, w, tn, p, dn, nt, xn, 
-                                wn, wp, wdl, fail, fn, fp, fi, fk, objs, adl, 
-                                single, cnt, rdy, enq, wq, pn >>
+                                lpar, wfor, freeing, badret, vcount, uaf, 
+                                taint4, taint5, stack, cn, cp, i, klist, w, tn, 
+                                p, dn, nt, xn, xcl, wn, wp, wdl, fail, fn, fp, 
+                                fi, fk, objs, adl, single, cnt, rdy, enq, wq, 
+                                sdl, scn, sct, sldl, snear, sso, st, pn >>
 
 wl_1_l(self) == /\ pc[self] = "wl_1_l"
                 /\ IF k[self] > Len(objs[self])
@@ -1252,10 +1406,11 @@ wl_1_l(self) == /\ pc[self] = "wl_1_l"
                            /\ pc' = [pc EXCEPT ![self] = "nd_1_ld"]
                 /\ UNCHANGED << live, notified, exp, par, kids, wts, disc, lk, 
                                 nww, sem, now, ip, ret, dres, called, dl0, 
-                                lpar, wfor, freeing, uaf, taint4, taint5, cn, 
-                                cp, i, klist, w, tn, p, xn, wn, wp, wdl, fail, 
-                                fn, fp, fi, fk, objs, adl, single, k, rt, cnt, 
-                                rdy, enq, wq, pn >>
+                                lpar, wfor, freeing, badret, vcount, uaf, 
+                                taint4, taint5, cn, cp, i, klist, w, tn, p, xn, 
+                                xcl, wn, wp, wdl, fail, fn, fp, fi, fk, objs, 
+                                adl, single, k, rt, cnt, rdy, enq, wq, sdl, 
+                                scn, sct, sldl, snear, sso, st, pn >>
 
 wl_2_l(self) == /\ pc[self] = "wl_2_l"
                 /\ rt' = [rt EXCEPT ![self] = Min2(rt[self], dres[self])]
@@ -1263,10 +1418,11 @@ wl_2_l(self) == /\ pc[self] = "wl_2_l"
                 /\ pc' = [pc EXCEPT ![self] = "wl_1_l"]
                 /\ UNCHANGED << live, notified, exp, par, kids, wts, disc, lk, 
                                 nww, sem, now, ip, ret, dres, called, dl0, 
-                                lpar, wfor, freeing, uaf, taint4, taint5, 
-                                stack, cn, cp, i, klist, w, tn, p, dn, nt, xn, 
-                                wn, wp, wdl, fail, fn, fp, fi, fk, objs, adl, 
-                                single, cnt, rdy, enq, wq, pn >>
+                                lpar, wfor, freeing, badret, vcount, uaf, 
+                                taint4, taint5, stack, cn, cp, i, klist, w, tn, 
+                                p, dn, nt, xn, xcl, wn, wp, wdl, fail, fn, fp, 
+                                fi, fk, objs, adl, single, cnt, rdy, enq, wq, 
+                                sdl, scn, sct, sldl, snear, sso, st, pn >>
 
 wl_3_l(self) == /\ pc[self] = "wl_3_l"
                 /\ IF rt[self] = ZERO
@@ -1274,10 +1430,12 @@ wl_3_l(self) == /\ pc[self] = "wl_3_l"
                       ELSE /\ pc' = [pc EXCEPT ![self] = "wn_7_pd"]
                 /\ UNCHANGED << live, notified, exp, par, kids, wts, disc, lk, 
                                 nww, sem, now, ip, ret, dres, called, dl0, 
-                                lpar, wfor, freeing, uaf, taint4, taint5, 
-                                stack, cn, cp, i, klist, w, tn, p, dn, nt, xn, 
-                                wn, wp, wdl, fail, fn, fp, fi, fk, objs, adl, 
-                                single, k, rt, cnt, rdy, enq, wq, pn >>
+                                lpar, wfor, freeing, badret, vcount, uaf, 
+                                taint4, taint5, stack, cn, cp, i, klist, w, tn, 
+                                p, dn, nt, xn, xcl, wn, wp, wdl, fail, fn, fp, 
+                                fi, fk, objs, adl, single, k, rt, cnt, rdy, 
+                                enq, wq, sdl, scn, sct, sldl, snear, sso, st, 
+                                pn >>
 
 wn_7_pd(self) == /\ pc[self] = "wn_7_pd"
                  /\ sem[self] > 0 \/ (rt[self] < NONE /\ now >= rt[self])
@@ -1288,10 +1446,11 @@ wn_7_pd(self) == /\ pc[self] = "wn_7_pd"
                             /\ sem' = sem
                  /\ UNCHANGED << live, notified, exp, par, kids, wts, disc, lk, 
                                  nww, now, ip, ret, dres, called, dl0, lpar, 
-                                 wfor, freeing, uaf, taint4, taint5, stack, cn, 
-                                 cp, i, klist, w, tn, p, dn, nt, xn, wn, wp, 
-                                 wdl, fail, fn, fp, fi, fk, objs, adl, single, 
-                                 k, rt, cnt, rdy, enq, wq, pn >>
+                                 wfor, freeing, badret, vcount, uaf, taint4, 
+                                 taint5, stack, cn, cp, i, klist, w, tn, p, dn, 
+                                 nt, xn, xcl, wn, wp, wdl, fail, fn, fp, fi, 
+                                 fk, objs, adl, single, k, rt, cnt, rdy, enq, 
+                                 wq, sdl, scn, sct, sldl, snear, sso, st, pn >>
 
 wd_0_l(self) == /\ pc[self] = "wd_0_l"
                 /\ k' = [k EXCEPT ![self] = 1]
@@ -1299,10 +1458,11 @@ wd_0_l(self) == /\ pc[self] = "wd_0_l"
                 /\ pc' = [pc EXCEPT ![self] = "wd_1_l"]
                 /\ UNCHANGED << live, notified, exp, par, kids, wts, disc, lk, 
                                 nww, sem, now, ip, ret, dres, called, dl0, 
-                                lpar, wfor, freeing, uaf, taint4, taint5, 
-                                stack, cn, cp, i, klist, w, tn, p, dn, nt, xn, 
-                                wn, wp, wdl, fail, fn, fp, fi, fk, objs, adl, 
-                                single, rt, cnt, enq, wq, pn >>
+                                lpar, wfor, freeing, badret, vcount, uaf, 
+                                taint4, taint5, stack, cn, cp, i, klist, w, tn, 
+                                p, dn, nt, xn, xcl, wn, wp, wdl, fail, fn, fp, 
+                                fi, fk, objs, adl, single, rt, cnt, enq, wq, 
+                                sdl, scn, sct, sldl, snear, sso, st, pn >>
 
 wd_1_l(self) == /\ pc[self] = "wd_1_l"
                 /\ IF k[self] > cnt[self]
@@ -1318,10 +1478,11 @@ wd_1_l(self) == /\ pc[self] = "wd_1_l"
                            /\ pc' = [pc EXCEPT ![self] = "nd_1_ld"]
                 /\ UNCHANGED << live, notified, exp, par, kids, wts, disc, lk, 
                                 nww, sem, now, ip, ret, dres, called, dl0, 
-                                lpar, wfor, freeing, uaf, taint4, taint5, cn, 
-                                cp, i, klist, w, tn, p, xn, wn, wp, wdl, fail, 
-                                fn, fp, fi, fk, objs, adl, single, k, rt, cnt, 
-                                rdy, enq, wq, pn >>
+                                lpar, wfor, freeing, badret, vcount, uaf, 
+                                taint4, taint5, cn, cp, i, klist, w, tn, p, xn, 
+                                xcl, wn, wp, wdl, fail, fn, fp, fi, fk, objs, 
+                                adl, single, k, rt, cnt, rdy, enq, wq, sdl, 
+                                scn, sct, sldl, snear, sso, st, pn >>
 
 nq_2_lk(self) == /\ pc[self] = "nq_2_lk"
                  /\ lk[objs[self][k[self]]] = 0
@@ -1330,10 +1491,11 @@ nq_2_lk(self) == /\ pc[self] = "nq_2_lk"
                  /\ pc' = [pc EXCEPT ![self] = "nq_3_ld"]
                  /\ UNCHANGED << live, notified, exp, par, kids, wts, disc, 
                                  nww, sem, now, ip, ret, dres, called, dl0, 
-                                 lpar, wfor, freeing, taint4, taint5, stack, 
-                                 cn, cp, i, klist, w, tn, p, dn, nt, xn, wn, 
-                                 wp, wdl, fail, fn, fp, fi, fk, objs, adl, 
-                                 single, k, rt, cnt, rdy, enq, wq, pn >>
+                                 lpar, wfor, freeing, badret, vcount, taint4, 
+                                 taint5, stack, cn, cp, i, klist, w, tn, p, dn, 
+                                 nt, xn, xcl, wn, wp, wdl, fail, fn, fp, fi, 
+                                 fk, objs, adl, single, k, rt, cnt, rdy, enq, 
+                                 wq, sdl, scn, sct, sldl, snear, sso, st, pn >>
 
 nq_3_ld(self) == /\ pc[self] = "nq_3_ld"
                  /\ wq' = [wq EXCEPT ![self] = NTime(objs[self][k[self]]) > ZERO]
@@ -1344,10 +1506,11 @@ nq_3_ld(self) == /\ pc[self] = "nq_3_ld"
                  /\ pc' = [pc EXCEPT ![self] = "nq_3_l"]
                  /\ UNCHANGED << live, notified, exp, par, kids, disc, lk, nww, 
                                  sem, now, ip, ret, dres, called, dl0, lpar, 
-                                 wfor, freeing, uaf, taint4, taint5, stack, cn, 
-                                 cp, i, klist, w, tn, p, dn, nt, xn, wn, wp, 
-                                 wdl, fail, fn, fp, fi, fk, objs, adl, single, 
-                                 k, rt, cnt, rdy, enq, pn >>
+                                 wfor, freeing, badret, vcount, uaf, taint4, 
+                                 taint5, stack, cn, cp, i, klist, w, tn, p, dn, 
+                                 nt, xn, xcl, wn, wp, wdl, fail, fn, fp, fi, 
+                                 fk, objs, adl, single, k, rt, cnt, rdy, enq, 
+                                 sdl, scn, sct, sldl, snear, sso, st, pn >>
 
 nq_3_l(self) == /\ pc[self] = "nq_3_l"
                 /\ IF ~wq[self]
@@ -1355,20 +1518,23 @@ nq_3_l(self) == /\ pc[self] = "nq_3_l"
                       ELSE /\ pc' = [pc EXCEPT ![self] = "nq_4_st"]
                 /\ UNCHANGED << live, notified, exp, par, kids, wts, disc, lk, 
                                 nww, sem, now, ip, ret, dres, called, dl0, 
-                                lpar, wfor, freeing, uaf, taint4, taint5, 
-                                stack, cn, cp, i, klist, w, tn, p, dn, nt, xn, 
-                                wn, wp, wdl, fail, fn, fp, fi, fk, objs, adl, 
-                                single, k, rt, cnt, rdy, enq, wq, pn >>
+                                lpar, wfor, freeing, badret, vcount, uaf, 
+                                taint4, taint5, stack, cn, cp, i, klist, w, tn, 
+                                p, dn, nt, xn, xcl, wn, wp, wdl, fail, fn, fp, 
+                                fi, fk, objs, adl, single, k, rt, cnt, rdy, 
+                                enq, wq, sdl, scn, sct, sldl, snear, sso, st, 
+                                pn >>
 
 nq_4_st(self) == /\ pc[self] = "nq_4_st"
                  /\ nww' = [nww EXCEPT ![self][objs[self][k[self]]] = 0]
                  /\ pc' = [pc EXCEPT ![self] = "nq_5_ul"]
                  /\ UNCHANGED << live, notified, exp, par, kids, wts, disc, lk, 
                                  sem, now, ip, ret, dres, called, dl0, lpar, 
-                                 wfor, freeing, uaf, taint4, taint5, stack, cn, 
-                                 cp, i, klist, w, tn, p, dn, nt, xn, wn, wp, 
-                                 wdl, fail, fn, fp, fi, fk, objs, adl, single, 
-                                 k, rt, cnt, rdy, enq, wq, pn >>
+                                 wfor, freeing, badret, vcount, uaf, taint4, 
+                                 taint5, stack, cn, cp, i, klist, w, tn, p, dn, 
+                                 nt, xn, xcl, wn, wp, wdl, fail, fn, fp, fi, 
+                                 fk, objs, adl, single, k, rt, cnt, rdy, enq, 
+                                 wq, sdl, scn, sct, sldl, snear, sso, st, pn >>
 
 nq_5_ul(self) == /\ pc[self] = "nq_5_ul"
                  /\ lk' = [lk EXCEPT ![objs[self][k[self]]] = 0]
@@ -1380,10 +1546,11 @@ nq_5_ul(self) == /\ pc[self] = "nq_5_ul"
                  /\ pc' = [pc EXCEPT ![self] = "wd_1_l"]
                  /\ UNCHANGED << live, notified, exp, par, kids, wts, disc, 
                                  nww, sem, now, ip, ret, dres, called, dl0, 
-                                 lpar, wfor, freeing, uaf, taint4, taint5, 
-                                 stack, cn, cp, i, klist, w, tn, p, dn, nt, xn, 
-                                 wn, wp, wdl, fail, fn, fp, fi, fk, objs, adl, 
-                                 single, rt, cnt, enq, wq, pn >>
+                                 lpar, wfor, freeing, badret, vcount, uaf, 
+                                 taint4, taint5, stack, cn, cp, i, klist, w, 
+                                 tn, p, dn, nt, xn, xcl, wn, wp, wdl, fail, fn, 
+                                 fp, fi, fk, objs, adl, single, rt, cnt, enq, 
+                                 wq, sdl, scn, sct, sldl, snear, sso, st, pn >>
 
 wd_9_l(self) == /\ pc[self] = "wd_9_l"
                 /\ ret' = [ret EXCEPT ![self] = IF single[self] THEN (IF rdy[self] = 0 THEN 0 ELSE 1) ELSE (IF rdy[self] = 0 THEN Len(objs[self]) ELSE rdy[self] - 1)]
@@ -1400,9 +1567,10 @@ wd_9_l(self) == /\ pc[self] = "wd_9_l"
                 /\ stack' = [stack EXCEPT ![self] = Tail(stack[self])]
                 /\ UNCHANGED << live, notified, exp, par, kids, wts, disc, lk, 
                                 nww, sem, now, ip, dres, called, dl0, lpar, 
-                                wfor, freeing, uaf, taint4, taint5, cn, cp, i, 
-                                klist, w, tn, p, dn, nt, xn, wn, wp, wdl, fail, 
-                                fn, fp, fi, fk, pn >>
+                                wfor, freeing, badret, vcount, uaf, taint4, 
+                                taint5, cn, cp, i, klist, w, tn, p, dn, nt, xn, 
+                                xcl, wn, wp, wdl, fail, fn, fp, fi, fk, sdl, 
+                                scn, sct, sldl, snear, sso, st, pn >>
 
 nwaitn(self) == ws_1_l(self) \/ ws_2_l(self) \/ we_1_l(self)
                    \/ wn_1_st(self) \/ ne_1_lk(self) \/ ne_2_ld(self)
@@ -1411,6 +1579,235 @@ nwaitn(self) == ws_1_l(self) \/ ws_2_l(self) \/ we_1_l(self)
                    \/ wn_7_pd(self) \/ wd_0_l(self) \/ wd_1_l(self)
                    \/ nq_2_lk(self) \/ nq_3_ld(self) \/ nq_3_l(self)
                    \/ nq_4_st(self) \/ nq_5_ul(self) \/ wd_9_l(self)
+
+sc_0_l(self) == /\ pc[self] = "sc_0_l"
+                /\ IF scn[self] = 0
+                      THEN /\ pc' = [pc EXCEPT ![self] = "sc_p_pd"]
+                           /\ UNCHANGED << stack, dn, nt >>
+                      ELSE /\ /\ dn' = [dn EXCEPT ![self] = scn[self]]
+                              /\ stack' = [stack EXCEPT ![self] = << [ procedure |->  "ndeadline",
+                                                                       pc        |->  "sc_1_l",
+                                                                       nt        |->  nt[self],
+                                                                       dn        |->  dn[self] ] >>
+                                                                   \o stack[self]]
+                           /\ nt' = [nt EXCEPT ![self] = 0]
+                           /\ pc' = [pc EXCEPT ![self] = "nd_1_ld"]
+                /\ UNCHANGED << live, notified, exp, par, kids, wts, disc, lk, 
+                                nww, sem, now, ip, ret, dres, called, dl0, 
+                                lpar, wfor, freeing, badret, vcount, uaf, 
+                                taint4, taint5, cn, cp, i, klist, w, tn, p, xn, 
+                                xcl, wn, wp, wdl, fail, fn, fp, fi, fk, objs, 
+                                adl, single, k, rt, cnt, rdy, enq, wq, sdl, 
+                                scn, sct, sldl, snear, sso, st, pn >>
+
+sc_1_l(self) == /\ pc[self] = "sc_1_l"
+                /\ IF dres[self] = ZERO
+                      THEN /\ sso' = [sso EXCEPT ![self] = ECANCELED]
+                           /\ pc' = [pc EXCEPT ![self] = "sc_r_l"]
+                      ELSE /\ pc' = [pc EXCEPT ![self] = "sc_2_st"]
+                           /\ sso' = sso
+                /\ UNCHANGED << live, notified, exp, par, kids, wts, disc, lk, 
+                                nww, sem, now, ip, ret, dres, called, dl0, 
+                                lpar, wfor, freeing, badret, vcount, uaf, 
+                                taint4, taint5, stack, cn, cp, i, klist, w, tn, 
+                                p, dn, nt, xn, xcl, wn, wp, wdl, fail, fn, fp, 
+                                fi, fk, objs, adl, single, k, rt, cnt, rdy, 
+                                enq, wq, sdl, scn, sct, sldl, snear, st, pn >>
+
+sc_2_st(self) == /\ pc[self] = "sc_2_st"
+                 /\ nww' = [nww EXCEPT ![self][scn[self]] = 1]
+                 /\ pc' = [pc EXCEPT ![self] = "sc_3_lk"]
+                 /\ UNCHANGED << live, notified, exp, par, kids, wts, disc, lk, 
+                                 sem, now, ip, ret, dres, called, dl0, lpar, 
+                                 wfor, freeing, badret, vcount, uaf, taint4, 
+                                 taint5, stack, cn, cp, i, klist, w, tn, p, dn, 
+                                 nt, xn, xcl, wn, wp, wdl, fail, fn, fp, fi, 
+                                 fk, objs, adl, single, k, rt, cnt, rdy, enq, 
+                                 wq, sdl, scn, sct, sldl, snear, sso, st, pn >>
+
+sc_3_lk(self) == /\ pc[self] = "sc_3_lk"
+                 /\ lk[scn[self]] = 0
+                 /\ lk' = [lk EXCEPT ![scn[self]] = self]
+                 /\ uaf' = (uaf \/ Touch(scn[self]))
+                 /\ pc' = [pc EXCEPT ![self] = "sc_4_ld"]
+                 /\ UNCHANGED << live, notified, exp, par, kids, wts, disc, 
+                                 nww, sem, now, ip, ret, dres, called, dl0, 
+                                 lpar, wfor, freeing, badret, vcount, taint4, 
+                                 taint5, stack, cn, cp, i, klist, w, tn, p, dn, 
+                                 nt, xn, xcl, wn, wp, wdl, fail, fn, fp, fi, 
+                                 fk, objs, adl, single, k, rt, cnt, rdy, enq, 
+                                 wq, sdl, scn, sct, sldl, snear, sso, st, pn >>
+
+sc_4_ld(self) == /\ pc[self] = "sc_4_ld"
+                 /\ sct' = [sct EXCEPT ![self] = NTime(scn[self])]
+                 /\ IF NTime(scn[self]) > ZERO
+                       THEN /\ wts' = [wts EXCEPT ![scn[self]] = Append(wts[scn[self]], self)]
+                            /\ sldl' = [sldl EXCEPT ![self] = Min2(NTime(scn[self]), sdl[self])]
+                            /\ snear' = [snear EXCEPT ![self] = sdl[self] < NTime(scn[self])]
+                            /\ pc' = [pc EXCEPT ![self] = "sc_5_ul"]
+                            /\ sso' = sso
+                       ELSE /\ sso' = [sso EXCEPT ![self] = ECANCELED]
+                            /\ pc' = [pc EXCEPT ![self] = "sc_9_ul"]
+                            /\ UNCHANGED << wts, sldl, snear >>
+                 /\ UNCHANGED << live, notified, exp, par, kids, disc, lk, nww, 
+                                 sem, now, ip, ret, dres, called, dl0, lpar, 
+                                 wfor, freeing, badret, vcount, uaf, taint4, 
+                                 taint5, stack, cn, cp, i, klist, w, tn, p, dn, 
+                                 nt, xn, xcl, wn, wp, wdl, fail, fn, fp, fi, 
+                                 fk, objs, adl, single, k, rt, cnt, rdy, enq, 
+                                 wq, sdl, scn, st, pn >>
+
+sc_5_ul(self) == /\ pc[self] = "sc_5_ul"
+                 /\ lk' = [lk EXCEPT ![scn[self]] = 0]
+                 /\ pc' = [pc EXCEPT ![self] = "sc_6_pd"]
+                 /\ UNCHANGED << live, notified, exp, par, kids, wts, disc, 
+                                 nww, sem, now, ip, ret, dres, called, dl0, 
+                                 lpar, wfor, freeing, badret, vcount, uaf, 
+                                 taint4, taint5, stack, cn, cp, i, klist, w, 
+                                 tn, p, dn, nt, xn, xcl, wn, wp, wdl, fail, fn, 
+                                 fp, fi, fk, objs, adl, single, k, rt, cnt, 
+                                 rdy, enq, wq, sdl, scn, sct, sldl, snear, sso, 
+                                 st, pn >>
+
+sc_6_pd(self) == /\ pc[self] = "sc_6_pd"
+                 /\ sem[self] > 0 \/ (sldl[self] < NONE /\ now >= sldl[self])
+                 /\ IF sem[self] > 0
+                       THEN /\ sem' = [sem EXCEPT ![self] = sem[self] - 1]
+                            /\ sso' = [sso EXCEPT ![self] = 0]
+                       ELSE /\ sso' = [sso EXCEPT ![self] = ETIMEDOUT]
+                            /\ sem' = sem
+                 /\ pc' = [pc EXCEPT ![self] = "sc_6_l"]
+                 /\ UNCHANGED << live, notified, exp, par, kids, wts, disc, lk, 
+                                 nww, now, ip, ret, dres, called, dl0, lpar, 
+                                 wfor, freeing, badret, vcount, uaf, taint4, 
+                                 taint5, stack, cn, cp, i, klist, w, tn, p, dn, 
+                                 nt, xn, xcl, wn, wp, wdl, fail, fn, fp, fi, 
+                                 fk, objs, adl, single, k, rt, cnt, rdy, enq, 
+                                 wq, sdl, scn, sct, sldl, snear, st, pn >>
+
+sc_6_l(self) == /\ pc[self] = "sc_6_l"
+                /\ IF sso[self] = ETIMEDOUT /\ ~snear[self]
+                      THEN /\ sso' = [sso EXCEPT ![self] = ECANCELED]
+                           /\ /\ stack' = [stack EXCEPT ![self] = << [ procedure |->  "nnotify",
+                                                                       pc        |->  "sc_7_lk",
+                                                                       xn        |->  xn[self],
+                                                                       xcl       |->  xcl[self] ] >>
+                                                                   \o stack[self]]
+                              /\ xcl' = [xcl EXCEPT ![self] = FALSE]
+                              /\ xn' = [xn EXCEPT ![self] = scn[self]]
+                           /\ pc' = [pc EXCEPT ![self] = "nx_0_l"]
+                      ELSE /\ pc' = [pc EXCEPT ![self] = "sc_7_lk"]
+                           /\ UNCHANGED << stack, xn, xcl, sso >>
+                /\ UNCHANGED << live, notified, exp, par, kids, wts, disc, lk, 
+                                nww, sem, now, ip, ret, dres, called, dl0, 
+                                lpar, wfor, freeing, badret, vcount, uaf, 
+                                taint4, taint5, cn, cp, i, klist, w, tn, p, dn, 
+                                nt, wn, wp, wdl, fail, fn, fp, fi, fk, objs, 
+                                adl, single, k, rt, cnt, rdy, enq, wq, sdl, 
+                                scn, sct, sldl, snear, st, pn >>
+
+sc_7_lk(self) == /\ pc[self] = "sc_7_lk"
+                 /\ lk[scn[self]] = 0
+                 /\ lk' = [lk EXCEPT ![scn[self]] = self]
+                 /\ uaf' = (uaf \/ Touch(scn[self]))
+                 /\ pc' = [pc EXCEPT ![self] = "sc_8_ld"]
+                 /\ UNCHANGED << live, notified, exp, par, kids, wts, disc, 
+                                 nww, sem, now, ip, ret, dres, called, dl0, 
+                                 lpar, wfor, freeing, badret, vcount, taint4, 
+                                 taint5, stack, cn, cp, i, klist, w, tn, p, dn, 
+                                 nt, xn, xcl, wn, wp, wdl, fail, fn, fp, fi, 
+                                 fk, objs, adl, single, k, rt, cnt, rdy, enq, 
+                                 wq, sdl, scn, sct, sldl, snear, sso, st, pn >>
+
+sc_8_ld(self) == /\ pc[self] = "sc_8_ld"
+                 /\ IF NTime(scn[self]) > ZERO
+                       THEN /\ wts' = [wts EXCEPT ![scn[self]] = Without(wts[scn[self]], self)]
+                       ELSE /\ TRUE
+                            /\ wts' = wts
+                 /\ pc' = [pc EXCEPT ![self] = "sc_9_ul"]
+                 /\ UNCHANGED << live, notified, exp, par, kids, disc, lk, nww, 
+                                 sem, now, ip, ret, dres, called, dl0, lpar, 
+                                 wfor, freeing, badret, vcount, uaf, taint4, 
+                                 taint5, stack, cn, cp, i, klist, w, tn, p, dn, 
+                                 nt, xn, xcl, wn, wp, wdl, fail, fn, fp, fi, 
+                                 fk, objs, adl, single, k, rt, cnt, rdy, enq, 
+                                 wq, sdl, scn, sct, sldl, snear, sso, st, pn >>
+
+sc_9_ul(self) == /\ pc[self] = "sc_9_ul"
+                 /\ lk' = [lk EXCEPT ![scn[self]] = 0]
+                 /\ pc' = [pc EXCEPT ![self] = "sc_r_l"]
+                 /\ UNCHANGED << live, notified, exp, par, kids, wts, disc, 
+                                 nww, sem, now, ip, ret, dres, called, dl0, 
+                                 lpar, wfor, freeing, badret, vcount, uaf, 
+                                 taint4, taint5, stack, cn, cp, i, klist, w, 
+                                 tn, p, dn, nt, xn, xcl, wn, wp, wdl, fail, fn, 
+                                 fp, fi, fk, objs, adl, single, k, rt, cnt, 
+                                 rdy, enq, wq, sdl, scn, sct, sldl, snear, sso, 
+                                 st, pn >>
+
+sc_r_l(self) == /\ pc[self] = "sc_r_l"
+                /\ ret' = [ret EXCEPT ![self] = sso[self]]
+                /\ IF scn[self] # 0
+                      THEN /\ nww' = [nww EXCEPT ![self][scn[self]] = 0]
+                      ELSE /\ TRUE
+                           /\ nww' = nww
+                /\ badret' = (badret \/ (sso[self] = ECANCELED /\ ~Cause(scn[self])) \/ (sso[self] = ETIMEDOUT /\ ~(sdl[self] < NONE /\ sdl[self] <= now)) \/ (sso[self] = 0 /\ vcount[self] = 0))
+                /\ IF sso[self] = 0
+                      THEN /\ vcount' = [vcount EXCEPT ![self] = vcount[self] - 1]
+                      ELSE /\ TRUE
+                           /\ UNCHANGED vcount
+                /\ pc' = [pc EXCEPT ![self] = Head(stack[self]).pc]
+                /\ sct' = [sct EXCEPT ![self] = Head(stack[self]).sct]
+                /\ sldl' = [sldl EXCEPT ![self] = Head(stack[self]).sldl]
+                /\ snear' = [snear EXCEPT ![self] = Head(stack[self]).snear]
+                /\ sso' = [sso EXCEPT ![self] = Head(stack[self]).sso]
+                /\ sdl' = [sdl EXCEPT ![self] = Head(stack[self]).sdl]
+                /\ scn' = [scn EXCEPT ![self] = Head(stack[self]).scn]
+                /\ stack' = [stack EXCEPT ![self] = Tail(stack[self])]
+                /\ UNCHANGED << live, notified, exp, par, kids, wts, disc, lk, 
+                                sem, now, ip, dres, called, dl0, lpar, wfor, 
+                                freeing, uaf, taint4, taint5, cn, cp, i, klist, 
+                                w, tn, p, dn, nt, xn, xcl, wn, wp, wdl, fail, 
+                                fn, fp, fi, fk, objs, adl, single, k, rt, cnt, 
+                                rdy, enq, wq, st, pn >>
+
+sc_p_pd(self) == /\ pc[self] = "sc_p_pd"
+                 /\ sem[self] > 0 \/ (sdl[self] < NONE /\ now >= sdl[self])
+                 /\ IF sem[self] > 0
+                       THEN /\ sem' = [sem EXCEPT ![self] = sem[self] - 1]
+                            /\ sso' = [sso EXCEPT ![self] = 0]
+                       ELSE /\ sso' = [sso EXCEPT ![self] = ETIMEDOUT]
+                            /\ sem' = sem
+                 /\ pc' = [pc EXCEPT ![self] = "sc_r_l"]
+                 /\ UNCHANGED << live, notified, exp, par, kids, wts, disc, lk, 
+                                 nww, now, ip, ret, dres, called, dl0, lpar, 
+                                 wfor, freeing, badret, vcount, uaf, taint4, 
+                                 taint5, stack, cn, cp, i, klist, w, tn, p, dn, 
+                                 nt, xn, xcl, wn, wp, wdl, fail, fn, fp, fi, 
+                                 fk, objs, adl, single, k, rt, cnt, rdy, enq, 
+                                 wq, sdl, scn, sct, sldl, snear, st, pn >>
+
+swc(self) == sc_0_l(self) \/ sc_1_l(self) \/ sc_2_st(self) \/ sc_3_lk(self)
+                \/ sc_4_ld(self) \/ sc_5_ul(self) \/ sc_6_pd(self)
+                \/ sc_6_l(self) \/ sc_7_lk(self) \/ sc_8_ld(self)
+                \/ sc_9_ul(self) \/ sc_r_l(self) \/ sc_p_pd(self)
+
+sv_1_v(self) == /\ pc[self] = "sv_1_v"
+                /\ sem' = [sem EXCEPT ![st[self]] = sem[st[self]] + 1]
+                /\ vcount' = [vcount EXCEPT ![st[self]] = vcount[st[self]] + 1]
+                /\ ret' = [ret EXCEPT ![self] = 0]
+                /\ pc' = [pc EXCEPT ![self] = Head(stack[self]).pc]
+                /\ st' = [st EXCEPT ![self] = Head(stack[self]).st]
+                /\ stack' = [stack EXCEPT ![self] = Tail(stack[self])]
+                /\ UNCHANGED << live, notified, exp, par, kids, wts, disc, lk, 
+                                nww, now, ip, dres, called, dl0, lpar, wfor, 
+                                freeing, badret, uaf, taint4, taint5, cn, cp, 
+                                i, klist, w, tn, p, dn, nt, xn, xcl, wn, wp, 
+                                wdl, fail, fn, fp, fi, fk, objs, adl, single, 
+                                k, rt, cnt, rdy, enq, wq, sdl, scn, sct, sldl, 
+                                snear, sso, pn >>
+
+semv(self) == sv_1_v(self)
 
 np_0_l(self) == /\ pc[self] = "np_0_l"
                 /\ /\ dn' = [dn EXCEPT ![self] = pn[self]]
@@ -1423,10 +1820,11 @@ np_0_l(self) == /\ pc[self] = "np_0_l"
                 /\ pc' = [pc EXCEPT ![self] = "nd_1_ld"]
                 /\ UNCHANGED << live, notified, exp, par, kids, wts, disc, lk, 
                                 nww, sem, now, ip, ret, dres, called, dl0, 
-                                lpar, wfor, freeing, uaf, taint4, taint5, cn, 
-                                cp, i, klist, w, tn, p, xn, wn, wp, wdl, fail, 
-                                fn, fp, fi, fk, objs, adl, single, k, rt, cnt, 
-                                rdy, enq, wq, pn >>
+                                lpar, wfor, freeing, badret, vcount, uaf, 
+                                taint4, taint5, cn, cp, i, klist, w, tn, p, xn, 
+                                xcl, wn, wp, wdl, fail, fn, fp, fi, fk, objs, 
+                                adl, single, k, rt, cnt, rdy, enq, wq, sdl, 
+                                scn, sct, sldl, snear, sso, st, pn >>
 
 np_1_l(self) == /\ pc[self] = "np_1_l"
                 /\ ret' = [ret EXCEPT ![self] = IF dres[self] = ZERO THEN 1 ELSE 0]
@@ -1435,10 +1833,11 @@ np_1_l(self) == /\ pc[self] = "np_1_l"
                 /\ stack' = [stack EXCEPT ![self] = Tail(stack[self])]
                 /\ UNCHANGED << live, notified, exp, par, kids, wts, disc, lk, 
                                 nww, sem, now, ip, dres, called, dl0, lpar, 
-                                wfor, freeing, uaf, taint4, taint5, cn, cp, i, 
-                                klist, w, tn, p, dn, nt, xn, wn, wp, wdl, fail, 
-                                fn, fp, fi, fk, objs, adl, single, k, rt, cnt, 
-                                rdy, enq, wq >>
+                                wfor, freeing, badret, vcount, uaf, taint4, 
+                                taint5, cn, cp, i, klist, w, tn, p, dn, nt, xn, 
+                                xcl, wn, wp, wdl, fail, fn, fp, fi, fk, objs, 
+                                adl, single, k, rt, cnt, rdy, enq, wq, sdl, 
+                                scn, sct, sldl, snear, sso, st >>
 
 npoll(self) == np_0_l(self) \/ np_1_l(self)
 
@@ -1448,13 +1847,17 @@ c0(self) == /\ pc[self] = "c0"
                              THEN /\ ip' = [ip EXCEPT ![self] = ip[self] + 1]
                                   /\ /\ stack' = [stack EXCEPT ![self] = << [ procedure |->  "nnotify",
                                                                               pc        |->  "c0",
-                                                                              xn        |->  xn[self] ] >>
+                                                                              xn        |->  xn[self],
+                                                                              xcl       |->  xcl[self] ] >>
                                                                           \o stack[self]]
+                                     /\ xcl' = [xcl EXCEPT ![self] = TRUE]
                                      /\ xn' = [xn EXCEPT ![self] = CurOp(self).a]
                                   /\ pc' = [pc EXCEPT ![self] = "nx_0_l"]
                                   /\ UNCHANGED << wn, wp, wdl, fail, fn, fp, 
                                                   fi, fk, objs, adl, single, k, 
-                                                  rt, cnt, rdy, enq, wq, pn >>
+                                                  rt, cnt, rdy, enq, wq, sdl, 
+                                                  scn, sct, sldl, snear, sso, 
+                                                  st, pn >>
                              ELSE /\ IF CurOp(self).op = "poll"
                                         THEN /\ ip' = [ip EXCEPT ![self] = ip[self] + 1]
                                              /\ /\ pn' = [pn EXCEPT ![self] = CurOp(self).a]
@@ -1467,7 +1870,9 @@ c0(self) == /\ pc[self] = "c0"
                                                              fn, fp, fi, fk, 
                                                              objs, adl, single, 
                                                              k, rt, cnt, rdy, 
-                                                             enq, wq >>
+                                                             enq, wq, sdl, scn, 
+                                                             sct, sldl, snear, 
+                                                             sso, st >>
                                         ELSE /\ IF CurOp(self).op = "new"
                                                    THEN /\ ip' = [ip EXCEPT ![self] = ip[self] + 1]
                                                         /\ /\ fail' = [fail EXCEPT ![self] = CurOp(self).x = 1]
@@ -1491,7 +1896,14 @@ c0(self) == /\ pc[self] = "c0"
                                                                         cnt, 
                                                                         rdy, 
                                                                         enq, 
-                                                                        wq >>
+                                                                        wq, 
+                                                                        sdl, 
+                                                                        scn, 
+                                                                        sct, 
+                                                                        sldl, 
+                                                                        snear, 
+                                                                        sso, 
+                                                                        st >>
                                                    ELSE /\ IF CurOp(self).op = "free"
                                                               THEN /\ ip' = [ip EXCEPT ![self] = ip[self] + 1]
                                                                    /\ /\ fn' = [fn EXCEPT ![self] = CurOp(self).a]
@@ -1514,7 +1926,14 @@ c0(self) == /\ pc[self] = "c0"
                                                                                    cnt, 
                                                                                    rdy, 
                                                                                    enq, 
-                                                                                   wq >>
+                                                                                   wq, 
+                                                                                   sdl, 
+                                                                                   scn, 
+                                                                                   sct, 
+                                                                                   sldl, 
+                                                                                   snear, 
+                                                                                   sso, 
+                                                                                   st >>
                                                               ELSE /\ IF CurOp(self).op = "wait"
                                                                          THEN /\ ip' = [ip EXCEPT ![self] = ip[self] + 1]
                                                                               /\ /\ adl' = [adl EXCEPT ![self] = CurOp(self).dl]
@@ -1539,6 +1958,13 @@ c0(self) == /\ pc[self] = "c0"
                                                                               /\ enq' = [enq EXCEPT ![self] = FALSE]
                                                                               /\ wq' = [wq EXCEPT ![self] = FALSE]
                                                                               /\ pc' = [pc EXCEPT ![self] = "ws_1_l"]
+                                                                              /\ UNCHANGED << sdl, 
+                                                                                              scn, 
+                                                                                              sct, 
+                                                                                              sldl, 
+                                                                                              snear, 
+                                                                                              sso, 
+                                                                                              st >>
                                                                          ELSE /\ IF CurOp(self).op = "waitn"
                                                                                     THEN /\ ip' = [ip EXCEPT ![self] = ip[self] + 1]
                                                                                          /\ /\ adl' = [adl EXCEPT ![self] = CurOp(self).dl]
@@ -1563,10 +1989,51 @@ c0(self) == /\ pc[self] = "c0"
                                                                                          /\ enq' = [enq EXCEPT ![self] = FALSE]
                                                                                          /\ wq' = [wq EXCEPT ![self] = FALSE]
                                                                                          /\ pc' = [pc EXCEPT ![self] = "ws_1_l"]
-                                                                                    ELSE /\ ip' = [ip EXCEPT ![self] = ip[self] + 1]
-                                                                                         /\ pc' = [pc EXCEPT ![self] = "c0"]
-                                                                                         /\ UNCHANGED << stack, 
-                                                                                                         objs, 
+                                                                                         /\ UNCHANGED << sdl, 
+                                                                                                         scn, 
+                                                                                                         sct, 
+                                                                                                         sldl, 
+                                                                                                         snear, 
+                                                                                                         sso, 
+                                                                                                         st >>
+                                                                                    ELSE /\ IF CurOp(self).op = "swc"
+                                                                                               THEN /\ ip' = [ip EXCEPT ![self] = ip[self] + 1]
+                                                                                                    /\ /\ scn' = [scn EXCEPT ![self] = CurOp(self).a]
+                                                                                                       /\ sdl' = [sdl EXCEPT ![self] = CurOp(self).dl]
+                                                                                                       /\ stack' = [stack EXCEPT ![self] = << [ procedure |->  "swc",
+                                                                                                                                                pc        |->  "c0",
+                                                                                                                                                sct       |->  sct[self],
+                                                                                                                                                sldl      |->  sldl[self],
+                                                                                                                                                snear     |->  snear[self],
+                                                                                                                                                sso       |->  sso[self],
+                                                                                                                                                sdl       |->  sdl[self],
+                                                                                                                                                scn       |->  scn[self] ] >>
+                                                                                                                                            \o stack[self]]
+                                                                                                    /\ sct' = [sct EXCEPT ![self] = 0]
+                                                                                                    /\ sldl' = [sldl EXCEPT ![self] = 0]
+                                                                                                    /\ snear' = [snear EXCEPT ![self] = FALSE]
+                                                                                                    /\ sso' = [sso EXCEPT ![self] = 0]
+                                                                                                    /\ pc' = [pc EXCEPT ![self] = "sc_0_l"]
+                                                                                                    /\ st' = st
+                                                                                               ELSE /\ IF CurOp(self).op = "semv"
+                                                                                                          THEN /\ ip' = [ip EXCEPT ![self] = ip[self] + 1]
+                                                                                                               /\ /\ st' = [st EXCEPT ![self] = CurOp(self).a]
+                                                                                                                  /\ stack' = [stack EXCEPT ![self] = << [ procedure |->  "semv",
+                                                                                                                                                           pc        |->  "c0",
+                                                                                                                                                           st        |->  st[self] ] >>
+                                                                                                                                                       \o stack[self]]
+                                                                                                               /\ pc' = [pc EXCEPT ![self] = "sv_1_v"]
+                                                                                                          ELSE /\ ip' = [ip EXCEPT ![self] = ip[self] + 1]
+                                                                                                               /\ pc' = [pc EXCEPT ![self] = "c0"]
+                                                                                                               /\ UNCHANGED << stack, 
+                                                                                                                               st >>
+                                                                                                    /\ UNCHANGED << sdl, 
+                                                                                                                    scn, 
+                                                                                                                    sct, 
+                                                                                                                    sldl, 
+                                                                                                                    snear, 
+                                                                                                                    sso >>
+                                                                                         /\ UNCHANGED << objs, 
                                                                                                          adl, 
                                                                                                          single, 
                                                                                                          k, 
@@ -1583,15 +2050,16 @@ c0(self) == /\ pc[self] = "c0"
                                                                         wdl, 
                                                                         fail >>
                                              /\ pn' = pn
-                                  /\ xn' = xn
+                                  /\ UNCHANGED << xn, xcl >>
                   ELSE /\ pc' = [pc EXCEPT ![self] = "Done"]
-                       /\ UNCHANGED << ip, stack, xn, wn, wp, wdl, fail, fn, 
-                                       fp, fi, fk, objs, adl, single, k, rt, 
-                                       cnt, rdy, enq, wq, pn >>
+                       /\ UNCHANGED << ip, stack, xn, xcl, wn, wp, wdl, fail, 
+                                       fn, fp, fi, fk, objs, adl, single, k, 
+                                       rt, cnt, rdy, enq, wq, sdl, scn, sct, 
+                                       sldl, snear, sso, st, pn >>
             /\ UNCHANGED << live, notified, exp, par, kids, wts, disc, lk, nww, 
                             sem, now, ret, dres, called, dl0, lpar, wfor, 
-                            freeing, uaf, taint4, taint5, cn, cp, i, klist, w, 
-                            tn, p, dn, nt >>
+                            freeing, badret, vcount, uaf, taint4, taint5, cn, 
+                            cp, i, klist, w, tn, p, dn, nt >>
 
 thr(self) == c0(self)
 
@@ -1602,7 +2070,7 @@ Terminating == /\ \A self \in ProcSet: pc[self] = "Done"
 Next == (\E self \in ProcSet:  \/ notify_child(self) \/ notify(self)
                                \/ ndeadline(self) \/ nnotify(self)
                                \/ nnew(self) \/ nfree(self) \/ nwaitn(self)
-                               \/ npoll(self))
+                               \/ swc(self) \/ semv(self) \/ npoll(self))
            \/ (\E self \in Threads: thr(self))
            \/ Terminating
 
@@ -1612,14 +2080,16 @@ Termination == <>(\A self \in ProcSet: pc[self] = "Done")
 
 \* END TRANSLATION
 
-LocalLabels == {"nc_5_l", "nc_9_l", "nc_k_l", "nc_w_l", "nd_5_l", "nf_10_l", "nf_12_l", "nf_1_l", "nf_5_l", "nf_6_l", "nf_k_l", "nn_0_l", "nn_1_l", "nn_2_l", "np_0_l", "np_1_l", "nq_3_l", "nt_2_l", "nt_7_l", "nt_7b_l", "nt_7c_l", "nx_0_l", "nx_1_l", "nx_2_l", "wd_0_l", "wd_1_l", "wd_9_l", "we_1_l", "wl_0_l", "wl_1_l", "wl_2_l", "wl_3_l", "ws_1_l", "ws_2_l"}
-Step(self) == notify_child(self) \/ notify(self) \/ ndeadline(self) \/ nnotify(self) \/ nnew(self) \/ nfree(self) \/ nwaitn(self) \/ npoll(self) \/ thr(self)
+LocalLabels == {"nc_5_l", "nc_9_l", "nc_k_l", "nc_w_l", "nd_5_l", "nf_10_l", "nf_12_l", "nf_1_l", "nf_5_l", "nf_6_l", "nf_k_l", "nn_0_l", "nn_1_l", "nn_2_l", "np_0_l", "np_1_l", "nq_3_l", "nt_2_l", "nt_7_l", "nt_7b_l", "nt_7c_l", "nx_0_l", "nx_1_l", "nx_2_l", "sc_0_l", "sc_1_l", "sc_6_l", "sc_r_l", "wd_0_l", "wd_1_l", "wd_9_l", "we_1_l", "wl_0_l", "wl_1_l", "wl_2_l", "wl_3_l", "ws_1_l", "ws_2_l"}
+Step(self) == notify_child(self) \/ notify(self) \/ ndeadline(self) \/ nnotify(self) \/ nnew(self) \/ nfree(self) \/ nwaitn(self) \/ swc(self) \/ semv(self) \/ npoll(self) \/ thr(self)
 \* the clock matters to a sleeper with a deadline still ahead, and to notes whose own expiry is ahead (lazy expiry at the next poll)
 TickUseful == \/ \E u \in Threads : pc[u] = "wn_7_pd" /\ rt[u] < NONE /\ rt[u] > now
+              \/ \E u \in Threads : pc[u] = "sc_6_pd" /\ sldl[u] < NONE /\ sldl[u] > now
+              \/ \E u \in Threads : pc[u] = "sc_p_pd" /\ sdl[u] < NONE /\ sdl[u] > now
               \/ \E n \in Notes : live[n] = "live" /\ notified[n] = 0 /\ exp[n] < NONE /\ exp[n] > now
 Tick == /\ now < MaxNow /\ TickUseful
         /\ now' = now + 1
-        /\ UNCHANGED <<pc, live, notified, exp, par, kids, wts, disc, lk, nww, sem, ip, ret, dres, called, dl0, lpar, wfor, freeing, uaf, taint4, taint5, stack, cn, cp, i, klist, w, tn, p, dn, nt, xn, wn, wp, wdl, fail, fn, fp, fi, fk, objs, adl, single, k, rt, cnt, rdy, enq, wq, pn>>
+        /\ UNCHANGED <<pc, live, notified, exp, par, kids, wts, disc, lk, nww, sem, ip, ret, dres, called, dl0, lpar, wfor, freeing, badret, vcount, uaf, taint4, taint5, stack, cn, cp, i, klist, w, tn, p, dn, nt, xn, xcl, wn, wp, wdl, fail, fn, fp, fi, fk, objs, adl, single, k, rt, cnt, rdy, enq, wq, sdl, scn, sct, sldl, snear, sso, st, pn>>
 LocalPending == {u \in Threads : pc[u] \in LocalLabels}
 NextU == IF LocalPending # {} THEN Step(CHOOSE u \in LocalPending : TRUE)
          ELSE (\E self \in Threads : Step(self)) \/ Tick
@@ -1627,9 +2097,6 @@ SpecU == Init /\ [][NextU]_vars
 
 AllDone == \A u \in Threads : pc[u] = "Done"
 \* ---- C08 ----
-RECURSIVE LAnc(_, _)
-LAnc(n, d) == IF n = 0 \/ d = 0 THEN {} ELSE {n} \cup LAnc(lpar[n], d - 1)      \* n and its logical ancestors
-Cause(n) == \E a \in LAnc(n, NN) : called[a] \/ (dl0[a] < NONE /\ dl0[a] <= now)
 NotifiedHasCause == \A n \in Notes : (live[n] \in {"live", "new"} /\ notified[n] # 0) => Cause(n)
 InNotify(u) == \/ pc[u] \in {"nc_1_ld", "nc_2_st", "nc_w_l", "nc_3_st", "nc_4_v", "nc_k_l", "nc_5_lk", "nc_5_l", "nc_6_ul", "nc_7_r", "nc_8_lk", "nc_9_l",
                              "nt_1_lk", "nt_2_ld", "nt_2_l", "nt_3_r", "nt_4_ul", "nt_5_lk", "nt_6_lk", "nt_7_l", "nt_7b_l", "nt_7_ul", "nt_7c_l", "nt_8_ul"}
@@ -1643,8 +2110,15 @@ DescendantsNotified == Quiescent => \A n \in Notes : (live[n] = "live" /\ notifi
 ExpiryIsMin == \A n \in Notes : (live[n] = "live" /\ par[n] # 0 /\ live[par[n]] = "live") => exp[n] <= exp[par[n]]
 \* ---- C09 ----
 NoUseAfterFree == ~uaf
+\* ---- C05 / C13 (waits on notes) ----
+RetHonest == ~badret
+InWait(u) == \E j \in 1..Len(stack[u]) : stack[u][j].procedure \in {"nwaitn", "swc"}
+\* a wait record is on a note's waiter list, or in a notifier's hands, only while the call that owns it is still in progress
+NoDeadRecord == /\ \A n \in Notes : live[n] = "live" => \A j \in 1..Len(wts[n]) : InWait(wts[n][j])
+                /\ \A u \in Threads : pc[u] \in {"nc_3_st", "nc_4_v"} => InWait(w[u])
 AdoptionKeepsTree == \A n \in Notes : (live[n] = "live" /\ par[n] # 0) => live[par[n]] # "none"
-BadSet == {x \in {"NotifiedHasCause", "DescendantsNotified", "ExpiryIsMin", "NoUseAfterFree"} :
+BadSet == {x \in {"NotifiedHasCause", "DescendantsNotified", "ExpiryIsMin", "NoUseAfterFree", "RetHonest", "NoDeadRecord"} :
+             \/ (x = "RetHonest" /\ ~RetHonest) \/ (x = "NoDeadRecord" /\ ~NoDeadRecord)
              \/ (x = "NotifiedHasCause" /\ ~NotifiedHasCause) \/ (x = "DescendantsNotified" /\ ~DescendantsNotified)
              \/ (x = "ExpiryIsMin" /\ ~ExpiryIsMin) \/ (x = "NoUseAfterFree" /\ ~NoUseAfterFree)}
 
